@@ -289,9 +289,17 @@ Definition ores (Q : IM -> Prop) (o : ioutcome IM) : Prop :=
 Lemma ores_mono (Q1 Q2 : IM -> Prop) o : (forall m, Q1 m -> Q2 m) -> ores Q1 o -> ores Q2 o.
 Proof. destruct o; cbn; auto. Qed.
 
+(* the same for functions that never return Err(()) *)
+Definition oresd (Q : IM -> Prop) (o : ioutcome IM) : Prop :=
+  match o with IDone m => Q m | IFail _ | IPanic _ => False | IHalt _ => True end.
+Lemma oresd_mono (Q1 Q2 : IM -> Prop) o : (forall m, Q1 m -> Q2 m) -> oresd Q1 o -> oresd Q2 o.
+Proof. destruct o; cbn; auto. Qed.
+Lemma oresd_ores Q o : oresd Q o -> ores Q o.
+Proof. by destruct o. Qed.
+
 Lemma ifoldO_ores {A} (I : IM -> Prop) (f : IM -> A -> ioutcome IM) l m :
   (forall m x, x ∈ l -> I m -> match f m x with IDone m' => I m' | IFail _ => False | IPanic _ => False | IHalt _ => True end) ->
-  I m -> ores I (ifoldO f l m).
+  I m -> oresd I (ifoldO f l m).
 Proof.
   revert m. induction l as [|x l IH]; intros m Hf Hm; [done|]. cbn.
   pose proof (Hf m x ltac:(left) Hm) as H. destruct (f m x); [|done..].
@@ -316,7 +324,7 @@ Qed.
 (* ---- answering taken pending queries never changes the state *)
 Lemma answer_ok site r l m :
   (site = None \/ forall q, q ∈ l -> is_Some (i_conns (ims m) !! q_conn q)) ->
-  ores (fun m' => ims m' = ims m /\ imc m' = imc m) (ifoldO (ianswer site r) l m).
+  oresd (fun m' => ims m' = ims m /\ imc m' = imc m) (ifoldO (ianswer site r) l m).
 Proof.
   intros H. apply (ifoldO_ores (fun m' => ims m' = ims m /\ imc m' = imc m)); [|done].
   intros m0 q Hq [Hm0 Hc0]. unfold ianswer. rewrite Hm0.
@@ -328,9 +336,9 @@ Qed.
 (* ---- insert a serial, draw a provider, send the query *)
 Lemma ask_ok site m t e G L :
   idb_inv_g G L (ims m) -> t ∈ L -> i_entries (ims m) !! t = Some e ->
-  ores (fun m' => idb_inv_g G (L ∖ {[t]}) (ims m') /\ i_conns (ims m') = i_conns (ims m) /\
-                  i_idle (ims m') = i_idle (ims m))
-       (iask_provider site m t e).
+  oresd (fun m' => idb_inv_g G (L ∖ {[t]}) (ims m') /\ i_conns (ims m') = i_conns (ims m) /\
+                   i_idle (ims m') = i_idle (ims m))
+        (iask_provider site m t e).
 Proof.
   intros I HL He. unfold iask_provider.
   destruct (iq_insert (ims m) t) as [[sr s1]|] eqn:Eins; [|done].
@@ -501,7 +509,7 @@ Proof.
     { unfold m1. cbn. destruct (ims m) as [cs es qm qn idl] eqn:Es. cbn in *.
       apply (inv_add_pending {| i_conns := cs; i_entries := es; i_qmap := qm; i_qnext := qn; i_idle := idl |}
                t e {| q_conn := c; q_serial := serial |} {[t]}); cbn; eauto; set_solver. }
-    eapply ores_mono; [|apply (ask_ok 121 m1 t e1 ∅ {[t]} I1); [set_solver|unfold m1; cbn; by rewrite lookup_insert]].
+    eapply ores_mono; [|apply oresd_ores, (ask_ok 121 m1 t e1 ∅ {[t]} I1); [set_solver|unfold m1; cbn; by rewrite lookup_insert]].
     intros m' (I' & Hc' & Hi'). split; [|done]. eapply idb_inv_g_L; [|exact I']. set_solver.
 Qed.
 
@@ -589,9 +597,14 @@ Proof.
     set (m2 := m <| ims; i_qmap ::= delete serial |> <| ims; i_entries ::= <[t := e2]> |>).
     assert (idb_inv (ims m2)) as I2.
     { unfold m2. cbn. rewrite Es. cbn. subst serial.
-      apply (inv_reply_update s0 t e q e2 ∅); try done; try set_solver.
-      destruct W; split; cbn; done. }
-    eapply ores_mono; [|apply (answer_ok (Some 134) (Some p) (e_pending e1) m2)].
+      refine (inv_reply_update s0 t e q e2 ∅ I He Hq _ eq_refl _ _ _ _ _).
+      - destruct W; split; cbn; done.
+      - done.
+      - cbn. intros x Hx. by apply elem_of_nil in Hx.
+      - set_solver.
+      - set_solver.
+      - done. }
+    eapply ores_mono; [|apply oresd_ores, (answer_ok (Some 134) (Some p) (e_pending e1) m2)].
     + intros m' [-> _]. split; [done|]. unfold m2. cbn. by rewrite Es.
     + right. intros q0 Hq0. unfold m2. cbn. rewrite Es. cbn. by apply (inv_pconn _ _ _ I t e).
   - (* Unavailable *)
@@ -604,10 +617,13 @@ Proof.
       set (m2 := m <| ims; i_qmap ::= delete serial |> <| ims; i_entries ::= <[t := e2]> |>).
       assert (idb_inv_g ∅ {[t]} (ims m2)) as I2.
       { unfold m2. cbn. rewrite Es. cbn. subst serial.
-        apply (inv_reply_update s0 t e q e2 {[t]}); try done; try set_solver.
+        refine (inv_reply_update s0 t e q e2 {[t]} I He Hq W2 _ _ Hpsub _ _ _).
+        - by rewrite Hq2.
         - intros x Hx. apply Hmem2 in Hx as [Hx _]. done.
-        - intros _. by rewrite Hin2. }
-      eapply ores_mono; [|apply (ask_ok 136 m2 t e2 ∅ {[t]} I2); [set_solver|unfold m2; cbn; by rewrite lookup_insert]].
+        - set_solver.
+        - intros _. by rewrite Hin2.
+        - set_solver. }
+      eapply ores_mono; [|apply oresd_ores, (ask_ok 136 m2 t e2 ∅ {[t]} I2); [set_solver|unfold m2; cbn; by rewrite lookup_insert]].
       intros m' (I' & Hc' & Hi'). split.
       * eapply idb_inv_g_L; [|exact I']. set_solver.
       * rewrite Hc', Hi'. unfold m2. cbn. by rewrite Es.
@@ -615,7 +631,1458 @@ Proof.
       set (m2 := m <| ims; i_qmap ::= delete serial |> <| ims; i_entries ::= delete t |>).
       assert (idb_inv (ims m2)) as I2.
       { unfold m2. cbn. rewrite Es. cbn. subst serial. by apply (inv_reply_delete s0 t e q). }
-      eapply ores_mono; [|apply (answer_ok (Some 135) None (e_pending e2) m2)].
+      eapply ores_mono; [|apply oresd_ores, (answer_ok (Some 135) None (e_pending e2) m2)].
       * intros m' [-> _]. split; [done|]. unfold m2. cbn. by rewrite Es.
       * right. intros q0 Hq0. unfold m2. cbn. rewrite Es. cbn. apply (inv_pconn _ _ _ I t e); [done|]. auto.
+Qed.
+
+
+Lemma NoDup_omap_inj {A B} (g : A -> option B) (l : list A) :
+  NoDup l -> (forall x y b, x ∈ l -> y ∈ l -> g x = Some b -> g y = Some b -> x = y) -> NoDup (omap g l).
+Proof.
+  intros Hnd Hinj. rewrite <- (list_fmap_id (omap g l)). apply NoDup_fmap_omap; [done|].
+  intros x y a b Hx Hy Ha Hb Heq. cbn in Heq. subst b. eauto.
+Qed.
+
+(* ================================================================ IntrospectionDatabase::remove_conn *)
+Definition cont_types (rs : list irc_result) : list itid :=
+  omap (fun r => match r with RCont _ t => Some t | RUnavail _ _ => None end) rs.
+
+(* the state between IntrospectionDatabase::remove_conn and the end of the loop over its results *)
+Record pend_ok (rs : list irc_result) (s : istate) : Prop := {
+  po_inv : idb_inv_g (list_to_set (irc_serial <$> rs)) (list_to_set (cont_types rs)) s;
+  po_nd_serial : NoDup (irc_serial <$> rs);
+  po_nd_types : NoDup (cont_types rs) }.
+
+Lemma erc_result_Some c t e r :
+  entry_wf e -> erc_result c (t, e) = Some r ->
+  exists e' b q, entry_remove_conn e c = IDone (e', b) /\ e_queried e = Some q /\ q_conn q = c /\
+    e_queried e' = None /\ irc_serial r = q_serial q /\
+    (b = true -> r = RCont (q_serial q) t) /\ (b = false -> r = RUnavail (q_serial q) (e_pending e')).
+Proof.
+  intros W. unfold erc_result. cbn.
+  destruct (entry_remove_conn_spec e c W) as (e' & b & -> & _ & Hq' & _).
+  unfold entry_queried. destruct (e_queried e) as [q|] eqn:Eq; [|done]. cbn.
+  destruct (e_queried e') as [q'|] eqn:Eq'; [done|]. cbn. intros [= <-].
+  exists e', b, q. split; [done|]. split; [done|].
+  unfold drop_queried in Hq'. rewrite Eq in Hq'.
+  destruct (bool_decide_reflect (q_conn q = c)) as [Hc|]; [|congruence].
+  split; [done|]. split; [done|]. destruct b; cbn; split; try done; intros [=].
+Qed.
+
+Lemma db_remove_conn_ok s c :
+  idb_inv s ->
+  exists ents' rs, db_remove_conn (i_entries s) c = IDone (ents', rs) /\
+    pend_ok rs (s <| i_conns := delete c (i_conns s) |> <| i_entries := ents' |>).
+Proof.
+  intros I. unfold db_remove_conn.
+  rewrite omap_nil_all.
+  2:{ intros [t e] Hin. apply elem_of_map_to_list in Hin. unfold erc_panic. cbn.
+      destruct (entry_remove_conn_spec e c (inv_wf _ _ _ I _ _ Hin)) as (e' & b & -> & _). done. }
+  eexists _, _. split; [done|].
+  set (rs := omap (erc_result c) (map_to_list (i_entries s))).
+  (* what the results are *)
+  assert (forall r, r ∈ rs <-> exists t e, i_entries s !! t = Some e /\ erc_result c (t, e) = Some r) as Hrs.
+  { intros r. unfold rs. rewrite elem_of_list_omap. split.
+    - intros ([t e] & Hin & Hr). apply elem_of_map_to_list in Hin. eauto.
+    - intros (t & e & Hin & Hr). exists (t, e). split; [|done]. by apply elem_of_map_to_list. }
+  assert (forall sr, sr ∈ irc_serial <$> rs <->
+            exists t e q, i_entries s !! t = Some e /\ e_queried e = Some q /\ q_conn q = c /\ q_serial q = sr) as HG.
+  { intros sr. rewrite elem_of_list_fmap. split.
+    - intros (r & -> & Hr). apply Hrs in Hr as (t & e & He & Hr).
+      apply erc_result_Some in Hr as (e' & b & q & _ & Hq & Hqc & _ & Hsr & _); [|by apply (inv_wf _ _ _ I t)].
+      exists t, e, q. done.
+    - intros (t & e & q & He & Hq & Hqc & <-).
+      pose proof (inv_wf _ _ _ I _ _ He) as W.
+      destruct (entry_remove_conn_spec e c W) as (e' & b & Hrc & _ & Hq' & Hp' & _).
+      assert (e_queried e' = None) as Hqn.
+      { rewrite Hq'. unfold drop_queried. rewrite Hq. by rewrite bool_decide_eq_true_2. }
+      eexists. split; [|apply Hrs; exists t, e; split; [done|]].
+      2:{ unfold erc_result. cbn. rewrite Hrc. unfold entry_queried. rewrite Hq, Hqn. cbn. done. }
+      by destruct b. }
+  assert (forall t, t ∈ cont_types rs <->
+            exists e q e', i_entries s !! t = Some e /\ e_queried e = Some q /\ q_conn q = c /\
+                           entry_remove_conn e c = IDone (e', true)) as HL.
+  { intros t. unfold cont_types. rewrite elem_of_list_omap. split.
+    - intros (r & Hr & Ht). destruct r as [sr t0|]; [|done]. injection Ht as ->.
+      apply Hrs in Hr as (t1 & e & He & Hr).
+      apply erc_result_Some in Hr as (e' & b & q & Hrc & Hq & Hqc & _ & _ & Hb1 & Hb2); [|by apply (inv_wf _ _ _ I t1)].
+      destruct b; [|by specialize (Hb2 eq_refl)]. specialize (Hb1 eq_refl). injection Hb1 as _ <-.
+      exists e, q, e'. done.
+    - intros (e & q & e' & He & Hq & Hqc & Hrc).
+      exists (RCont (q_serial q) t). split; [|done]. apply Hrs. exists t, e. split; [done|].
+      pose proof (inv_wf _ _ _ I _ _ He) as W.
+      destruct (entry_remove_conn_spec e c W) as (e'' & b & Hrc' & _ & Hq' & _).
+      rewrite Hrc in Hrc'. injection Hrc' as <- <-.
+      unfold erc_result. cbn. rewrite Hrc. unfold entry_queried. rewrite Hq, Hq'. unfold drop_queried. rewrite Hq.
+      rewrite bool_decide_eq_true_2 by done. done. }
+  (* entries after the retain *)
+  assert (forall t e', omap (erc_keep c) (i_entries s) !! t = Some e' <->
+            exists e, i_entries s !! t = Some e /\ entry_remove_conn e c = IDone (e', true)) as Hkeep.
+  { intros t e'. rewrite lookup_omap. destruct (i_entries s !! t) as [e|] eqn:He; cbn.
+    - unfold erc_keep. split.
+      + intros Hk. exists e. split; [done|]. destruct (entry_remove_conn e c) as [[e0 [|]]| | |]; try done. by injection Hk as ->.
+      + intros (e0 & [= <-] & ->). done.
+    - split; [done|]. by intros (? & ? & _). }
+  split.
+  - split; cbn.
+    + intros t e' (e & He & Hrc)%Hkeep.
+      destruct (entry_remove_conn_spec e c (inv_wf _ _ _ I _ _ He)) as (e'' & b & Hrc' & _ & _ & _ & _ & Ht).
+      rewrite Hrc in Hrc'. injection Hrc' as <- <-. by apply Ht.
+    + intros t e' (e & He & Hrc)%Hkeep HnL Hp.
+      rewrite elem_of_list_to_set in HnL.
+      destruct (entry_remove_conn_spec e c (inv_wf _ _ _ I _ _ He)) as (e'' & b & Hrc' & _ & Hq' & Hp' & _).
+      rewrite Hrc in Hrc'. injection Hrc' as <- <-.
+      assert (e_pending e <> []) as Hpe.
+      { intros Hn. apply Hp. rewrite Hp'. unfold drop_pending. by rewrite Hn. }
+      destruct (inv_live _ _ _ I _ _ He ltac:(set_solver) Hpe) as [q Hq].
+      rewrite Hq'. unfold drop_queried. rewrite Hq.
+      destruct (bool_decide_reflect (q_conn q = c)) as [Hqc|]; [|eauto].
+      exfalso. apply HnL. apply HL. exists e, q, e'. done.
+    + intros t e' (e & He & Hrc)%Hkeep HinL. rewrite elem_of_list_to_set in HinL.
+      apply HL in HinL as (e0 & q & e0' & He0 & Hq & Hqc & Hrc0).
+      assert (e0 = e) as -> by congruence.
+      destruct (entry_remove_conn_spec e c (inv_wf _ _ _ I _ _ He)) as (e'' & b & Hrc' & Hin' & Hq' & _).
+      rewrite Hrc in Hrc'. injection Hrc' as <- <-.
+      split.
+      * rewrite Hq'. unfold drop_queried. rewrite Hq. by rewrite bool_decide_eq_true_2.
+      * rewrite Hin'. by apply (wf_queried _ (inv_wf _ _ _ I _ _ He) q).
+    + intros t e' x (e & He & Hrc)%Hkeep Hx.
+      destruct (entry_remove_conn_spec e c (inv_wf _ _ _ I _ _ He)) as (e'' & b & Hrc' & _ & _ & _ & _ & Ht).
+      rewrite Hrc in Hrc'. injection Hrc' as <- <-. destruct (Ht eq_refl) as [_ Hmem].
+      apply Hmem in Hx as [Hx Hxc]. rewrite lookup_delete_ne by done. by apply (inv_conn _ _ _ I t e).
+    + intros t e' q0 (e & He & Hrc)%Hkeep Hx.
+      destruct (entry_remove_conn_spec e c (inv_wf _ _ _ I _ _ He)) as (e'' & b & Hrc' & _ & _ & Hp' & _).
+      rewrite Hrc in Hrc'. injection Hrc' as <- <-. rewrite Hp' in Hx. apply elem_of_drop_pending in Hx as [Hx Hxc].
+      rewrite lookup_delete_ne by done. by apply (inv_pconn _ _ _ I t e).
+    + intros t e' q0 (e & He & Hrc)%Hkeep Hq0.
+      destruct (entry_remove_conn_spec e c (inv_wf _ _ _ I _ _ He)) as (e'' & b & Hrc' & _ & Hq' & _).
+      rewrite Hrc in Hrc'. injection Hrc' as <- <-. rewrite Hq' in Hq0. unfold drop_queried in Hq0.
+      destruct (e_queried e) as [q|] eqn:Hq; [|done].
+      destruct (bool_decide_reflect (q_conn q = c)) as [|Hqc]; [done|]. injection Hq0 as <-.
+      destruct (inv_q1 _ _ _ I _ _ _ He Hq) as [Hm _]. split; [done|].
+      rewrite elem_of_list_to_set. intros (t1 & e1 & q1 & He1 & Hq1 & Hqc1 & Hs1)%HG.
+      destruct (inv_q1 _ _ _ I _ _ _ He1 Hq1) as [Hm1 _]. rewrite Hs1 in Hm1.
+      assert (t1 = t) as -> by congruence. assert (e1 = e) as -> by congruence. congruence.
+    + intros sr t Hs. destruct (inv_q2 _ _ _ I _ _ Hs) as [?|(e & q & He & Hq & Hqs)]; [set_solver|].
+      destruct (decide (q_conn q = c)) as [Hqc|Hqc].
+      * left. rewrite elem_of_list_to_set. apply HG. exists t, e, q. done.
+      * right. pose proof (inv_wf _ _ _ I _ _ He) as W.
+        destruct (entry_remove_conn_spec e c W) as (e' & b & Hrc & _ & Hq' & _ & Hb & _).
+        assert (b = true) as ->.
+        { destruct b; [done|]. exfalso. apply Hqc. apply Hb; [done|]. by apply (wf_queried _ W q). }
+        exists e', q. split; [apply Hkeep; eauto|]. split; [|done].
+        rewrite Hq'. unfold drop_queried. rewrite Hq. by rewrite bool_decide_eq_false_2.
+    + intros sr. rewrite elem_of_list_to_set. intros (t & e & q & He & Hq & Hqc & <-)%HG.
+      destruct (inv_q1 _ _ _ I _ _ _ He Hq) as [Hm _]. eauto.
+  - (* distinct serials: two entries never wait under the same serial *)
+    apply NoDup_fmap_omap; [apply NoDup_map_to_list|].
+    intros [t1 e1] [t2 e2] r1 r2 H1%elem_of_map_to_list H2%elem_of_map_to_list Hr1 Hr2 Heq.
+    apply erc_result_Some in Hr1 as (_ & _ & q1 & _ & Hq1 & _ & _ & Hs1 & _); [|by apply (inv_wf _ _ _ I t1)].
+    apply erc_result_Some in Hr2 as (_ & _ & q2 & _ & Hq2 & _ & _ & Hs2 & _); [|by apply (inv_wf _ _ _ I t2)].
+    destruct (inv_q1 _ _ _ I _ _ _ H1 Hq1) as [Hm1 _]. destruct (inv_q1 _ _ _ I _ _ _ H2 Hq2) as [Hm2 _].
+    rewrite <- Hs1, Heq, Hs2 in Hm1. assert (t1 = t2) as -> by congruence. f_equal. congruence.
+  - (* distinct types among the Continue results *)
+    assert (NoDup rs) as Hndrs.
+    { eapply (NoDup_fmap_1 irc_serial). apply NoDup_fmap_omap; [apply NoDup_map_to_list|].
+      intros [t1 e1] [t2 e2] r1 r2 H1%elem_of_map_to_list H2%elem_of_map_to_list Hr1 Hr2 Heq.
+      apply erc_result_Some in Hr1 as (_ & _ & q1 & _ & Hq1 & _ & _ & Hs1 & _); [|by apply (inv_wf _ _ _ I t1)].
+      apply erc_result_Some in Hr2 as (_ & _ & q2 & _ & Hq2 & _ & _ & Hs2 & _); [|by apply (inv_wf _ _ _ I t2)].
+      destruct (inv_q1 _ _ _ I _ _ _ H1 Hq1) as [Hm1 _]. destruct (inv_q1 _ _ _ I _ _ _ H2 Hq2) as [Hm2 _].
+      rewrite <- Hs1, Heq, Hs2 in Hm1. assert (t1 = t2) as -> by congruence. f_equal. congruence. }
+    unfold cont_types. apply NoDup_omap_inj; [done|].
+    intros r1 r2 t Hr1 Hr2 Ht1 Ht2. destruct r1 as [s1 t1|]; [|done]. destruct r2 as [s2 t2|]; [|done].
+    injection Ht1 as ->. injection Ht2 as ->.
+    apply Hrs in Hr1 as (ta & ea & Hea & Hra). apply Hrs in Hr2 as (tb & eb & Heb & Hrb).
+    apply erc_result_Some in Hra as (ea' & ba & qa & _ & Hqa & _ & _ & _ & Ha1 & Ha2); [|by apply (inv_wf _ _ _ I ta)].
+    apply erc_result_Some in Hrb as (eb' & bb & qb & _ & Hqb & _ & _ & _ & Hb1 & Hb2); [|by apply (inv_wf _ _ _ I tb)].
+    destruct ba; [|by specialize (Ha2 eq_refl)]. destruct bb; [|by specialize (Hb2 eq_refl)].
+    specialize (Ha1 eq_refl). specialize (Hb1 eq_refl). clear Ha2 Hb2.
+    injection Ha1 as Hsa Hta. injection Hb1 as Hsb Htb. subst ta tb.
+    assert (ea = eb) as -> by congruence. congruence.
+Qed.
+
+(* ================================================================ Broker::remove_introspection_conn *)
+Lemma inv_del_G G L s sr :
+  idb_inv_g G L s -> sr ∈ G -> idb_inv_g (G ∖ {[sr]}) L (s <| i_qmap := delete sr (i_qmap s) |>).
+Proof.
+  intros I HG. split; cbn.
+  - apply (inv_wf _ _ _ I).
+  - apply (inv_live _ _ _ I).
+  - apply (inv_L _ _ _ I).
+  - apply (inv_conn _ _ _ I).
+  - apply (inv_pconn _ _ _ I).
+  - intros t e q He Hq. destruct (inv_q1 _ _ _ I _ _ _ He Hq) as [Hm HnG]. split; [|set_solver].
+    rewrite lookup_delete_ne; [done|]. intros Heq. apply HnG. by rewrite <- Heq.
+  - intros s0 t [Hne Hs]%lookup_delete_Some. destruct (inv_q2 _ _ _ I _ _ Hs) as [?|?]; [left; set_solver|by right].
+  - intros s0 [H0 Hne]%elem_of_difference. rewrite lookup_delete_ne by set_solver. by apply (inv_G _ _ _ I).
+Qed.
+
+Lemma inv_L_drop_absent G L s t :
+  idb_inv_g G L s -> i_entries s !! t = None -> idb_inv_g G (L ∖ {[t]}) s.
+Proof.
+  intros I Hn. split.
+  - apply (inv_wf _ _ _ I).
+  - intros t0 e He HnL. apply (inv_live _ _ _ I _ _ He). intros HL. apply HnL.
+    apply elem_of_difference. split; [done|]. intros ->%elem_of_singleton. congruence.
+  - intros t0 e He HL. apply (inv_L _ _ _ I _ _ He). set_solver.
+  - apply (inv_conn _ _ _ I).
+  - apply (inv_pconn _ _ _ I).
+  - apply (inv_q1 _ _ _ I).
+  - apply (inv_q2 _ _ _ I).
+  - apply (inv_G _ _ _ I).
+Qed.
+
+Lemma idb_inv_g_eq G G' L L' s : G = G' -> L = L' -> idb_inv_g G L s -> idb_inv_g G' L' s.
+Proof. by intros -> ->. Qed.
+
+Lemma iremove_result_ok m r rs :
+  pend_ok (r :: rs) (ims m) ->
+  oresd (fun m' => pend_ok rs (ims m') /\ frame m m') (iremove_result m r).
+Proof.
+  intros [I Hnds Hndt]. unfold iremove_result, frame.
+  cbn [fmap list_fmap] in Hnds, I. apply NoDup_cons in Hnds as [Hsr Hnds].
+  assert (irc_serial r ∈ (list_to_set (irc_serial r :: (irc_serial <$> rs)) : gset N)) as HinG by set_solver.
+  destruct (inv_G _ _ _ I _ HinG) as [t0 Hqm]. rewrite Hqm.
+  pose proof (inv_del_G _ _ _ _ I HinG) as I1.
+  assert ((list_to_set (irc_serial r :: (irc_serial <$> rs)) : gset N) ∖ {[irc_serial r]} = list_to_set (irc_serial <$> rs)) as HGeq.
+  { apply leibniz_equiv. intros x. rewrite elem_of_difference, !elem_of_list_to_set, elem_of_cons, elem_of_singleton.
+    split; [tauto|]. intros Hx. split; [by right|]. intros ->. done. }
+  rewrite HGeq in I1. clear HGeq HinG.
+  set (m1 := m <| ims; i_qmap ::= delete (irc_serial r) |>).
+  change (idb_inv_g (list_to_set (irc_serial <$> rs)) (list_to_set (cont_types (r :: rs))) (ims m1)) in I1.
+  assert (i_conns (ims m1) = i_conns (ims m) /\ i_idle (ims m1) = i_idle (ims m)) as [Hc1 Hi1] by done.
+  clearbody m1.
+  destruct r as [sr t|sr pend]; cbn [irc_serial] in *.
+  - (* Continue *)
+    cbn [cont_types omap list_omap] in Hndt, I1. fold (cont_types rs) in Hndt, I1.
+    apply NoDup_cons in Hndt as [Ht Hndt].
+    assert ((list_to_set (t :: cont_types rs) : gset itid) ∖ {[t]} = list_to_set (cont_types rs)) as HLeq.
+    { apply leibniz_equiv. intros x. rewrite elem_of_difference, !elem_of_list_to_set, elem_of_cons, elem_of_singleton.
+      split; [tauto|]. intros Hx. split; [by right|]. intros ->. done. }
+    destruct (i_entries (ims m1) !! t) as [e|] eqn:Ee.
+    + eapply oresd_mono; [|apply (ask_ok 141 m1 t e _ _ I1); [set_solver|done]].
+      intros m' (I' & Hc' & Hi'). split; [|by rewrite Hc', Hi'].
+      split; [|done..]. rewrite HLeq in I'. done.
+    + cbn. split; [|done]. split; [|done..]. rewrite <- HLeq. by apply inv_L_drop_absent.
+  - (* Unavailable *)
+    cbn [cont_types omap list_omap] in Hndt, I1. fold (cont_types rs) in Hndt, I1.
+    eapply oresd_mono; [|apply (answer_ok None None pend m1); by left].
+    intros m' [-> _]. split; [|done]. split; [|done..]. exact I1.
+Qed.
+
+Lemma iremove_fold_ok rs : forall m,
+  pend_ok rs (ims m) -> oresd (fun m' => idb_inv (ims m') /\ frame m m') (ifoldO iremove_result rs m).
+Proof.
+  induction rs as [|r rs IH]; intros m P.
+  - cbn. split; [|done]. destruct P as [I _ _]. exact I.
+  - cbn. pose proof (iremove_result_ok m r rs P) as H. destruct (iremove_result m r) as [m'| | |]; try done.
+    destruct H as [P' [Hc Hi]]. eapply oresd_mono; [|apply IH, P'].
+    intros m'' [I'' [Hc'' Hi'']]. split; [done|]. split; congruence.
+Qed.
+
+(* Broker::shutdown_connection: the invariant survives, the connection is gone, no other is *)
+Lemma ishutdown_conn_ok m c sd :
+  idb_inv (ims m) ->
+  oresd (fun m' => idb_inv (ims m') /\ i_conns (ims m') = delete c (i_conns (ims m)) /\
+                   i_idle (ims m') = i_idle (ims m)) (ishutdown_conn m c sd).
+Proof.
+  intros I. unfold ishutdown_conn. destruct (i_conns (ims m) !! c) as [ci|] eqn:Ec.
+  2:{ cbn. split; [done|]. split; [|done]. by rewrite delete_notin. }
+  set (m0 := m <| ims; i_conns ::= delete c |>).
+  set (m1 := if sd && ci_alive ci then iemit m0 c IShutdown else m0).
+  assert (ims m1 = ims m <| i_conns := delete c (i_conns (ims m)) |>) as Hm1.
+  { unfold m1. by destruct (sd && ci_alive ci). }
+  unfold iremove_introspection_conn. rewrite Hm1. cbn [i_entries set].
+  destruct (db_remove_conn_ok (ims m) c I) as (ents' & rs & -> & P).
+  set (m2 := m1 <| ims; i_entries := ents' |>).
+  assert (pend_ok rs (ims m2)) as P2.
+  { unfold m2. cbn. rewrite Hm1. exact P. }
+  eapply oresd_mono; [|apply (iremove_fold_ok rs m2 P2)].
+  intros m' [I' [Hc' Hi']]. split; [done|]. rewrite Hc', Hi'. unfold m2. cbn. rewrite Hm1. done.
+Qed.
+
+(* ================================================================ the work loop and one step *)
+Definition settled (m m' : IM) : Prop :=
+  idb_inv (ims m') /\ (forall c, i_conns (ims m) !! c = None -> i_conns (ims m') !! c = None) /\
+  i_idle (ims m') = i_idle (ims m) /\ imq m' = [].
+
+Lemma isettle_S fuel m :
+  isettle (S fuel) m =
+  match imq m with
+  | [] => IDone m
+  | (c, sd) :: rest =>
+      match ishutdown_conn (m <| imq := rest |>) c sd with
+      | IDone m' | IFail m' => isettle fuel m'
+      | IPanic s => IPanic s
+      | IHalt h => IHalt h
+      end
+  end.
+Proof. reflexivity. Qed.
+Lemma isettle_0 m : isettle 0 m = match imq m with [] => IDone m | _ :: _ => IHalt NoFuel end.
+Proof. cbn. by destruct (imq m) as [|[??]?]. Qed.
+
+Lemma isettle_ok fuel : forall m,
+  idb_inv (ims m) -> oresd (settled m) (isettle fuel m).
+Proof.
+  induction fuel as [|fuel IH]; intros m I.
+  - rewrite isettle_0. destruct (imq m) as [|[c sd] rest] eqn:Eq; [|done]. cbn. done.
+  - rewrite isettle_S. destruct (imq m) as [|[c sd] rest] eqn:Eq; [cbn; done|].
+    match goal with |- context [ishutdown_conn ?a c sd] =>
+      pose proof (ishutdown_conn_ok a c sd I) as H; destruct (ishutdown_conn a c sd) as [m'| | |] end; try done.
+    unfold oresd in H. destruct H as (I' & Hc' & Hi').
+    eapply oresd_mono; [|apply IH, I']. intros m'' (I'' & Hn'' & Hi'' & Hq''). split; [done|]. split; [|split; [by rewrite Hi'', Hi'|done]].
+    intros c0 Hc0. apply Hn''. rewrite Hc'. cbn. by apply lookup_delete_None; right.
+Qed.
+
+Lemma isettle_head fuel m c sd rest m' :
+  idb_inv (ims m) -> imq m = (c, sd) :: rest -> isettle fuel m = IDone m' -> i_conns (ims m') !! c = None.
+Proof.
+  intros I Eq. destruct fuel as [|fuel]; [rewrite isettle_0, Eq; done|]. rewrite isettle_S, Eq.
+  match goal with |- context [ishutdown_conn ?a c sd] =>
+    pose proof (ishutdown_conn_ok a c sd I) as H; destruct (ishutdown_conn a c sd) as [m1| | |] end; try done.
+  unfold oresd in H. destruct H as (I1 & Hc1 & _).
+  intros Hs. pose proof (isettle_ok fuel m1 I1) as H2. rewrite Hs in H2. destruct H2 as (_ & Hn & _).
+  apply Hn. rewrite Hc1. apply lookup_delete.
+Qed.
+
+(* the machine right after the event-specific part of a step *)
+Definition ihandled (s : istate) (e : ievent) (ch : list N) : ioutcome IM :=
+  let m0 := {| ims := s; imq := []; imo := []; imc := ch |} in
+  let fail_to (c : iconn) (r : ioutcome IM) : ioutcome IM :=
+    match r with IFail m => IDone (ipush_remove m c false) | o => o end in
+  match e with
+  | INew c ver =>
+      match i_conns s !! c with
+      | Some _ => IPanic 150
+      | None => IDone (m0 <| ims; i_conns ::= <[c := {| ci_ver := ver; ci_alive := true |}]> |>)
+      end
+  | IConnShutdown c => IDone (ipush_remove m0 c false)
+  | IShutdownConn c => IDone (ipush_remove m0 c true)
+  | IDropTask c =>
+      IDone (match i_conns s !! c with
+             | Some ci => m0 <| ims; i_conns ::= <[c := ci <| ci_alive := false |>]> |>
+             | None => m0
+             end)
+  | IRegister c ts => fail_to c (db_register m0 c ts)
+  | IQueryMsg c serial t => fail_to c (db_query m0 c serial t)
+  | IReplyMsg c serial r => fail_to c (db_reply m0 c serial r)
+  | IShutdownIdle => IDone (m0 <| ims; i_idle := true |>)
+  end.
+
+Lemma istep_eq s e ch :
+  istep s e ch =
+  match ihandled s e ch with
+  | IDone m | IFail m =>
+      match isettle (ifuel_for m) m with
+      | IDone m' | IFail m' => IDone (ims m', imo m')
+      | IPanic site => IPanic site
+      | IHalt h => IHalt h
+      end
+  | IPanic site => IPanic site
+  | IHalt h => IHalt h
+  end.
+Proof. reflexivity. Qed.
+
+(* updating the connection table without removing a key keeps the invariant *)
+Lemma inv_conns_update s (cs' : gmap iconn icinfo) :
+  idb_inv s -> (forall c, is_Some (i_conns s !! c) -> is_Some (cs' !! c)) -> idb_inv (s <| i_conns := cs' |>).
+Proof.
+  intros I H. split; cbn.
+  - apply (inv_wf _ _ _ I).
+  - apply (inv_live _ _ _ I).
+  - apply (inv_L _ _ _ I).
+  - intros t e c He Hc. apply H. by apply (inv_conn _ _ _ I t e).
+  - intros t e q He Hq. apply H. by apply (inv_pconn _ _ _ I t e).
+  - apply (inv_q1 _ _ _ I).
+  - apply (inv_q2 _ _ _ I).
+  - apply (inv_G _ _ _ I).
+Qed.
+
+Lemma ihandled_ok s e ch :
+  idb_inv s -> ilegal s e -> oresd (fun m => idb_inv (ims m)) (ihandled s e ch).
+Proof.
+  intros I Hl. unfold ihandled.
+  set (m0 := {| ims := s; imq := []; imo := []; imc := ch |}).
+  assert (forall c r, ores (fun m => idb_inv (ims m)) r ->
+            oresd (fun m => idb_inv (ims m)) (match r with IFail m => IDone (ipush_remove m c false) | o => o end)) as Hfail.
+  { intros c [m| m | |]; cbn; done. }
+  destruct e as [c ver|c|c|c|c ts|c serial t|c serial r|]; cbn in Hl.
+  - rewrite Hl. cbn. destruct s as [cs es qm qn idl]. cbn in *.
+    apply (inv_conns_update {| i_conns := cs; i_entries := es; i_qmap := qm; i_qnext := qn; i_idle := idl |}); [done|].
+    cbn. intros c0 H0. destruct (decide (c0 = c)) as [->|Hne]; [by rewrite lookup_insert|by rewrite lookup_insert_ne].
+  - done.
+  - done.
+  - cbn. destruct (i_conns s !! c) as [ci|] eqn:Ec; [|done]. cbn. destruct s as [cs es qm qn idl]. cbn in *.
+    apply (inv_conns_update {| i_conns := cs; i_entries := es; i_qmap := qm; i_qnext := qn; i_idle := idl |}); [done|].
+    cbn. intros c0 H0. destruct (decide (c0 = c)) as [->|Hne]; [by rewrite lookup_insert|by rewrite lookup_insert_ne].
+  - apply Hfail. eapply ores_mono; [|apply (db_register_ok m0 c ts I)]. by intros m [? _].
+  - apply Hfail. eapply ores_mono; [|apply (db_query_ok m0 c serial t I)]. by intros m [? _].
+  - apply Hfail. eapply ores_mono; [|apply (db_reply_ok m0 c serial r I)]. by intros m [? _].
+  - cbn. destruct I. split; done.
+Qed.
+
+Lemma istep_ok s e ch :
+  idb_inv s -> ilegal s e ->
+  match istep s e ch with
+  | IDone (s', _) => idb_inv s'
+  | IFail _ | IPanic _ => False
+  | IHalt _ => True
+  end.
+Proof.
+  intros I Hl. rewrite istep_eq. pose proof (ihandled_ok s e ch I Hl) as H.
+  destruct (ihandled s e ch) as [m| | |]; try done. cbn in H.
+  pose proof (isettle_ok (ifuel_for m) m H) as H2.
+  destruct (isettle _ m) as [m'| | |]; try done. by destruct H2.
+Qed.
+
+(* ================================================================ theorems *)
+Lemma idb_inv_reachable s : ireachable s -> idb_inv s.
+Proof.
+  induction 1 as [|s e ch s' o _ IH Hl Hs]; [apply idb_inv_init|].
+  pose proof (istep_ok s e ch IH Hl) as H. by rewrite Hs in H.
+Qed.
+
+Lemma introdb_no_panic s e ch site : ireachable s -> ilegal s e -> istep s e ch <> IPanic site.
+Proof.
+  intros Hr Hl Hp. pose proof (istep_ok s e ch (idb_inv_reachable _ Hr) Hl) as H. by rewrite Hp in H.
+Qed.
+
+(* nothing references c *)
+Definition idb_no_ref (c : iconn) (s : istate) : Prop :=
+  i_conns s !! c = None /\
+  forall t e, i_entries s !! t = Some e ->
+    c ∉ e_ids e /\ e_idxs e !! c = None /\
+    (forall q, e_queried e = Some q -> q_conn q <> c) /\
+    (forall q, q ∈ e_pending e -> q_conn q <> c).
+
+Lemma inv_no_ref s c : idb_inv s -> i_conns s !! c = None -> idb_no_ref c s.
+Proof.
+  intros I Hc. split; [done|]. intros t e He.
+  pose proof (inv_wf _ _ _ I _ _ He) as W.
+  assert (c ∉ e_ids e) as Hnin.
+  { intros Hin. destruct (inv_conn _ _ _ I _ _ _ He Hin) as [? ?]. congruence. }
+  split; [done|]. split; [by apply (wf_idx_None _ _ W)|]. split.
+  - intros q Hq <-. apply Hnin. by apply (wf_queried _ W q).
+  - intros q Hq <-. destruct (inv_pconn _ _ _ I _ _ _ He Hq) as [? ?]. congruence.
+Qed.
+
+Lemma introdb_release s c e ch s' o :
+  ireachable s -> e = IConnShutdown c \/ e = IShutdownConn c ->
+  istep s e ch = IDone (s', o) -> idb_no_ref c s'.
+Proof.
+  intros Hr He Hs. pose proof (idb_inv_reachable _ Hr) as I.
+  assert (ilegal s e) as Hl by (destruct He as [-> | ->]; done).
+  pose proof (istep_ok s e ch I Hl) as Hok. rewrite Hs in Hok.
+  apply inv_no_ref; [done|].
+  rewrite istep_eq in Hs.
+  assert (exists sd, ihandled s e ch = IDone (ipush_remove {| ims := s; imq := []; imo := []; imc := ch |} c sd)) as [sd Hh]
+    by (destruct He as [-> | ->]; cbn; eauto).
+  rewrite Hh in Hs.
+  set (m := ipush_remove {| ims := s; imq := []; imo := []; imc := ch |} c sd) in *.
+  destruct (isettle (ifuel_for m) m) as [m'|m'| |] eqn:Es; try done.
+  - injection Hs as <- _. eapply (isettle_head _ m c sd []); [done|done|exact Es].
+  - pose proof (isettle_ok (ifuel_for m) m I) as H. by rewrite Es in H.
+Qed.
+
+Lemma introdb_empty s : ireachable s -> i_conns s = ∅ -> i_entries s = ∅ /\ i_qmap s = ∅.
+Proof.
+  intros Hr Hc. pose proof (idb_inv_reachable _ Hr) as I.
+  assert (i_entries s = ∅) as He.
+  { apply map_empty. intros t. destruct (i_entries s !! t) as [e|] eqn:E; [|done]. exfalso.
+    pose proof (inv_wf _ _ _ I _ _ E) as W. destruct (e_ids e) as [|c l] eqn:El; [by apply (wf_nonempty _ W)|].
+    destruct (inv_conn _ _ _ I _ _ c E) as [ci Hci]; [rewrite El; left|]. rewrite Hc, lookup_empty in Hci. done. }
+  split; [done|]. apply map_empty. intros sr. destruct (i_qmap s !! sr) as [t|] eqn:E; [|done]. exfalso.
+  destruct (inv_q2 _ _ _ I _ _ E) as [?|(e & q & H1 & _)]; [set_solver|]. rewrite He, lookup_empty in H1. done.
+Qed.
+
+(* ================================================================ outputs go to connected, live connections *)
+(* what any part of a step may do: connections only disappear (their data never changes), outputs
+   are appended, and every new output goes to a connection that is connected with a live receiver *)
+Record mrel (m m' : IM) : Prop := {
+  mr_conns : forall c ci, i_conns (ims m') !! c = Some ci -> i_conns (ims m) !! c = Some ci;
+  mr_out : exists o, imo m' = imo m ++ o /\
+             forall c x, (c, x) ∈ o -> exists ci, i_conns (ims m) !! c = Some ci /\ ci_alive ci = true }.
+
+Lemma mrel_refl m : mrel m m.
+Proof. split; [done|]. exists []. split; [by rewrite app_nil_r|]. intros c x Hx. by apply elem_of_nil in Hx. Qed.
+
+Lemma mrel_trans m1 m2 m3 : mrel m1 m2 -> mrel m2 m3 -> mrel m1 m3.
+Proof.
+  intros [Hc1 (o1 & Ho1 & Hp1)] [Hc2 (o2 & Ho2 & Hp2)]. split; [auto|].
+  exists (o1 ++ o2). split; [by rewrite Ho2, Ho1, app_assoc|].
+  intros c x [Hx|Hx]%elem_of_app; [by apply (Hp1 c x)|]. destruct (Hp2 c x Hx) as (ci & Hci & Ha). eauto.
+Qed.
+
+(* same connection table, same outputs *)
+Lemma mrel_silent m m' : i_conns (ims m') = i_conns (ims m) -> imo m' = imo m -> mrel m m'.
+Proof.
+  intros Hc Ho. split; [by rewrite Hc|]. exists []. split; [by rewrite Ho, app_nil_r|].
+  intros c x Hx. by apply elem_of_nil in Hx.
+Qed.
+
+Lemma mrel_send m c ci x :
+  i_conns (ims m) !! c = Some ci -> mrel m (isend_or_remove m c ci x).
+Proof.
+  intros Hc. unfold isend_or_remove. destruct (ci_alive ci) eqn:Ea; [|by apply mrel_silent].
+  split; [done|]. exists [(c, x)]. split; [done|]. intros c0 x0 [= -> ->]%elem_of_list_singleton. eauto.
+Qed.
+
+Lemma ask_mrel site m t e m' : iask_provider site m t e = IDone m' -> mrel m m'.
+Proof.
+  unfold iask_provider. destruct (iq_insert (ims m) t) as [[sr s1]|] eqn:Eins; [|done].
+  apply iq_insert_spec in Eins as (_ & _ & Hc1 & _ & _).
+  repeat (match goal with |- context [if ?b then _ else _] => destruct b end; [done|]).
+  destruct (imc m) as [|r rest]; [done|].
+  destruct (entry_query_random_conn e sr r) as [[e' c]| | |]; try done.
+  cbn. rewrite Hc1. destruct (i_conns (ims m) !! c) as [ci|] eqn:Ec; [|done]. intros [= <-].
+  eapply mrel_trans; [|apply mrel_send; cbn; by rewrite Hc1].
+  apply mrel_silent; cbn; [by rewrite Hc1|done].
+Qed.
+
+Lemma ifoldO_mrel {A} (f : IM -> A -> ioutcome IM) l : forall m m',
+  (forall m x m', f m x = IDone m' -> mrel m m') -> ifoldO f l m = IDone m' -> mrel m m'.
+Proof.
+  induction l as [|x l IH]; intros m m' Hf; cbn.
+  - intros [= <-]. apply mrel_refl.
+  - destruct (f m x) as [m1| | |] eqn:E; try done. intros H. eapply mrel_trans; [by eapply Hf|by eapply IH].
+Qed.
+
+Lemma ianswer_mrel site r m q m' : ianswer site r m q = IDone m' -> mrel m m'.
+Proof.
+  unfold ianswer. destruct (i_conns (ims m) !! q_conn q) as [ci|] eqn:Ec.
+  - intros [= <-]. by apply mrel_send.
+  - destruct site; [done|]. intros [= <-]. apply mrel_refl.
+Qed.
+
+Lemma db_register_mrel m c ts m' : db_register m c ts = IDone m' \/ db_register m c ts = IFail m' -> mrel m m'.
+Proof.
+  unfold db_register. destruct (i_conns (ims m) !! c) as [ci|]; [|intros [[= <-]|[=]]; apply mrel_refl].
+  destruct (ci_ver ci <? _); [intros [[=]|[= <-]]; apply mrel_refl|].
+  destruct ts as [l|]; [|intros [[=]|[= <-]]; apply mrel_refl].
+  intros [[= <-]|[=]]. by apply mrel_silent.
+Qed.
+
+Lemma db_query_mrel m c serial t m' : db_query m c serial t = IDone m' \/ db_query m c serial t = IFail m' -> mrel m m'.
+Proof.
+  unfold db_query. destruct (i_conns (ims m) !! c) as [ci|] eqn:Ec; [|intros [[= <-]|[=]]; apply mrel_refl].
+  destruct (ci_ver ci <? _); [intros [[=]|[= <-]]; apply mrel_refl|].
+  assert (forall x, ci_alive ci = true -> mrel m (iemit m c x)) as Hemit.
+  { intros x Ha. split; [done|]. exists [(c, x)]. split; [done|]. intros c0 x0 [= -> ->]%elem_of_list_singleton. eauto. }
+  destruct (i_entries (ims m) !! t) as [e|] eqn:Ee.
+  2:{ destruct (ci_alive ci) eqn:Ea; intros [[= <-]|[= <-]]; auto using mrel_refl. }
+  destruct (e_intro e) as [p|].
+  { destruct (ci_alive ci) eqn:Ea; intros [[= <-]|[= <-]]; auto using mrel_refl. }
+  cbn. destruct (e_queried e) as [q|]; cbn.
+  - intros [[= <-]|[=]]. by apply mrel_silent.
+  - intros [H|H].
+    + eapply mrel_trans; [|by eapply ask_mrel]. by apply mrel_silent.
+    + exfalso. revert H. unfold iask_provider. destruct (iq_insert _ _) as [[sr s1]|]; [|done].
+      repeat (match goal with |- context [if ?b then _ else _] => destruct b end; [done|]).
+      match goal with |- context [imc ?a] => destruct (imc a) as [|r rest] end; [done|].
+      destruct (entry_query_random_conn _ sr r) as [[e' c0]| | |]; try done.
+      match goal with |- context [i_conns ?a !! c0] => destruct (i_conns a !! c0) end; done.
+Qed.
+
+Lemma ask_never_fails site m t e m' : iask_provider site m t e <> IFail m'.
+Proof.
+  unfold iask_provider. destruct (iq_insert _ _) as [[sr s1]|]; [|done].
+  repeat (match goal with |- context [if ?b then _ else _] => destruct b end; [done|]).
+  destruct (imc m) as [|r rest]; [done|].
+  destruct (entry_query_random_conn _ sr r) as [[e' c0]| | |]; try done.
+  match goal with |- context [i_conns ?a !! c0] => destruct (i_conns a !! c0) end; done.
+Qed.
+
+Lemma ifoldO_never_fails {A} (f : IM -> A -> ioutcome IM) l : forall m m',
+  (forall m x m', f m x <> IFail m') -> ifoldO f l m <> IFail m'.
+Proof.
+  induction l as [|x l IH]; intros m m' Hf; cbn; [done|].
+  destruct (f m x) as [m1|m1| |] eqn:E; try done; [by apply IH|]. by destruct (Hf m x m1).
+Qed.
+
+Lemma ianswer_never_fails site r m q m' : ianswer site r m q <> IFail m'.
+Proof. unfold ianswer. destruct (i_conns _ !! _); [done|]. by destruct site. Qed.
+
+Lemma db_reply_mrel m c serial r m' : db_reply m c serial r = IDone m' \/ db_reply m c serial r = IFail m' -> mrel m m'.
+Proof.
+  unfold db_reply. destruct (i_conns (ims m) !! c) as [ci|] eqn:Ec; [|intros [[= <-]|[=]]; apply mrel_refl].
+  destruct (ci_ver ci <? _); [intros [[=]|[= <-]]; apply mrel_refl|].
+  destruct (i_qmap (ims m) !! serial) as [t|]; [|intros [[=]|[= <-]]; apply mrel_refl].
+  destruct (i_entries (ims m) !! t) as [e|]; [|intros [[=]|[=]]].
+  destruct (e_queried e) as [q|]; [|intros [[=]|[= <-]]; apply mrel_refl].
+  destruct (negb (bool_decide (q_conn q = c))); [intros [[=]|[= <-]]; apply mrel_refl|].
+  destruct (negb (bool_decide (q_serial q = serial))); [intros [[=]|[=]]|].
+  destruct (bool_decide (is_Some (e_intro e))); [intros [[=]|[=]]|].
+  destruct r as [p|].
+  - match goal with |- context [if ?b then _ else _] => destruct b end; [intros [[=]|[=]]|].
+    intros [H|H].
+    + eapply mrel_trans; [|eapply ifoldO_mrel; [|exact H]; intros; by eapply ianswer_mrel]. by apply mrel_silent.
+    + exfalso. revert H. apply ifoldO_never_fails. intros; apply ianswer_never_fails.
+  - destruct (entry_remove_conn _ c) as [[e2 [|]]| | |]; [| |intros [[=]|[=]]..].
+    + intros [H|H].
+      * eapply mrel_trans; [|by eapply ask_mrel]. by apply mrel_silent.
+      * by apply ask_never_fails in H.
+    + intros [H|H].
+      * eapply mrel_trans; [|eapply ifoldO_mrel; [|exact H]; intros; by eapply ianswer_mrel]. by apply mrel_silent.
+      * exfalso. revert H. apply ifoldO_never_fails. intros; apply ianswer_never_fails.
+Qed.
+
+Lemma iremove_result_mrel m r m' : iremove_result m r = IDone m' -> mrel m m'.
+Proof.
+  unfold iremove_result. destruct (i_qmap (ims m) !! irc_serial r); [|done].
+  destruct r as [sr t|sr pend].
+  - destruct (i_entries _ !! t) as [e|].
+    + intros H. eapply mrel_trans; [|by eapply ask_mrel]. by apply mrel_silent.
+    + intros [= <-]. by apply mrel_silent.
+  - intros H. eapply mrel_trans; [|eapply ifoldO_mrel; [|exact H]; intros; by eapply ianswer_mrel]. by apply mrel_silent.
+Qed.
+
+Lemma ishutdown_conn_mrel m c sd m' : ishutdown_conn m c sd = IDone m' -> mrel m m'.
+Proof.
+  unfold ishutdown_conn. destruct (i_conns (ims m) !! c) as [ci|] eqn:Ec; [|intros [= <-]; apply mrel_refl].
+  set (m0 := m <| ims; i_conns ::= delete c |>).
+  assert (mrel m (if sd && ci_alive ci then iemit m0 c IShutdown else m0)) as H1.
+  { assert (forall c0 ci0, delete c (i_conns (ims m)) !! c0 = Some ci0 -> i_conns (ims m) !! c0 = Some ci0) as Hd
+      by (intros c0 ci0 [_ ?]%lookup_delete_Some; done).
+    destruct (sd && ci_alive ci) eqn:Eb.
+    - apply andb_true_iff in Eb as [_ Ea]. split; [exact Hd|]. exists [(c, IShutdown)]. split; [done|].
+      intros c0 x0 [= -> ->]%elem_of_list_singleton. eauto.
+    - split; [exact Hd|]. exists []. split; [by rewrite app_nil_r|]. intros c0 x0 Hx. by apply elem_of_nil in Hx. }
+  unfold iremove_introspection_conn.
+  destruct (db_remove_conn _ c) as [[ents' rs]| | |]; try done.
+  intros H. eapply mrel_trans; [exact H1|]. eapply mrel_trans; [|eapply ifoldO_mrel; [|exact H]; apply iremove_result_mrel].
+  apply mrel_silent; [|done]. cbn. by destruct (sd && ci_alive ci).
+Qed.
+
+Lemma iremove_result_never_fails m r m' : iremove_result m r <> IFail m'.
+Proof.
+  unfold iremove_result. destruct (i_qmap (ims m) !! irc_serial r); [|done].
+  destruct r as [sr t|sr pend].
+  - destruct (i_entries _ !! t) as [e|]; [apply ask_never_fails|done].
+  - apply ifoldO_never_fails. intros; apply ianswer_never_fails.
+Qed.
+
+Lemma ishutdown_conn_never_fails m c sd m' : ishutdown_conn m c sd <> IFail m'.
+Proof.
+  unfold ishutdown_conn. destruct (i_conns (ims m) !! c) as [ci|]; [|done].
+  unfold iremove_introspection_conn. destruct (db_remove_conn _ c) as [[ents' rs]| | |]; try done.
+  apply ifoldO_never_fails. intros; apply iremove_result_never_fails.
+Qed.
+
+Lemma isettle_mrel fuel : forall m m', isettle fuel m = IDone m' -> mrel m m'.
+Proof.
+  induction fuel as [|fuel IH]; intros m m'.
+  - rewrite isettle_0. destruct (imq m); [|done]. intros [= <-]. apply mrel_refl.
+  - rewrite isettle_S. destruct (imq m) as [|[c sd] rest] eqn:Eq; [intros [= <-]; apply mrel_refl|].
+    match goal with |- context [ishutdown_conn ?a c sd] =>
+      pose proof (ishutdown_conn_mrel a c sd) as H1; pose proof (ishutdown_conn_never_fails a c sd) as H2;
+      destruct (ishutdown_conn a c sd) as [m1|m1| |] end; try done.
+    + intros H. eapply mrel_trans; [|by apply IH]. eapply mrel_trans; [|by apply H1]. by apply mrel_silent.
+    + by destruct (H2 m1).
+Qed.
+
+Lemma isettle_never_fails fuel : forall m m', isettle fuel m <> IFail m'.
+Proof.
+  induction fuel as [|fuel IH]; intros m m'.
+  - rewrite isettle_0. by destruct (imq m).
+  - rewrite isettle_S. destruct (imq m) as [|[c sd] rest]; [done|].
+    match goal with |- context [ishutdown_conn ?a c sd] => destruct (ishutdown_conn a c sd) as [m1|m1| |] end; try done; apply IH.
+Qed.
+
+Lemma ihandled_mrel s e ch m :
+  ihandled s e ch = IDone m ->
+  (mrel {| ims := s; imq := []; imo := []; imc := ch |} m) \/ (imq m = [] /\ imo m = []).
+Proof.
+  unfold ihandled. set (m0 := {| ims := s; imq := []; imo := []; imc := ch |}).
+  assert (forall c r, (forall m', r = IDone m' \/ r = IFail m' -> mrel m0 m') ->
+            match r with IFail m => IDone (ipush_remove m c false) | o => o end = IDone m -> mrel m0 m) as Hfail.
+  { intros c [m1|m1| |] Hr; try done; intros [= <-].
+    - apply Hr. by left.
+    - eapply mrel_trans; [apply Hr; by right|]. by apply mrel_silent. }
+  destruct e as [c ver|c|c|c|c ts|c serial t|c serial r|].
+  - destruct (i_conns s !! c); [done|]. intros [= <-]. by right.
+  - intros [= <-]. left. by apply mrel_silent.
+  - intros [= <-]. left. by apply mrel_silent.
+  - intros [= <-]. right. by destruct (i_conns s !! c).
+  - intros H. left. eapply Hfail; [|exact H]. apply db_register_mrel.
+  - intros H. left. eapply Hfail; [|exact H]. apply db_query_mrel.
+  - intros H. left. eapply Hfail; [|exact H]. apply db_reply_mrel.
+  - intros [= <-]. by right.
+Qed.
+
+(* every message of a step goes to a connection that was connected, with a live receiver, when the
+   step began: nothing is ever sent to a connection that has been removed *)
+Lemma introdb_outputs_connected s e ch s' o :
+  istep s e ch = IDone (s', o) ->
+  forall c x, (c, x) ∈ o -> exists ci, i_conns s !! c = Some ci /\ ci_alive ci = true.
+Proof.
+  rewrite istep_eq. destruct (ihandled s e ch) as [m|m| |] eqn:Eh; try done.
+  - destruct (isettle (ifuel_for m) m) as [m'|m'| |] eqn:Es; try done.
+    + intros [= <- <-]. destruct (ihandled_mrel _ _ _ _ Eh) as [H|[Hq Ho]].
+      * pose proof (mrel_trans _ _ _ H (isettle_mrel _ _ _ Es)) as [_ (o & Ho & Hp)]. cbn in Ho. subst o. exact Hp.
+      * (* nothing queued and nothing sent: the loop does nothing *)
+        destruct (ifuel_for m); [rewrite isettle_0 in Es|rewrite isettle_S in Es]; rewrite Hq in Es;
+          injection Es as <-; rewrite Ho; intros c x Hx; by apply elem_of_nil in Hx.
+    + by apply isettle_never_fails in Es.
+  - (* the event-specific part never leaves an Err: handle_event turns it into a removal *)
+    exfalso. revert Eh. unfold ihandled. destruct e; try done.
+    + by destruct (i_conns s !! c).
+    + by destruct (db_register _ _ _).
+    + by destruct (db_query _ _ _ _).
+    + by destruct (db_reply _ _ _ _).
+Qed.
+
+(* ================================================================ every query is accounted for *)
+From stdpp Require Import gmultiset.
+
+(* the serials under which connection r has queries in a pending list / in the whole database,
+   and the serials of the QueryIntrospectionReply messages r gets in a list of outputs *)
+Definition qms (r : iconn) (l : list iquery) : gmultiset N :=
+  list_to_set_disj (q_serial <$> List.filter (fun q => bool_decide (q_conn q = r)) l).
+Definition gsum {A} (g : A -> gmultiset N) (l : list A) : gmultiset N :=
+  foldr (fun p acc => g p ⊎ acc) ∅ l.
+Definition pend_of (s : istate) (r : iconn) : gmultiset N :=
+  gsum (fun p : itid * ientry => qms r (e_pending p.2)) (map_to_list (i_entries s)).
+Definition reply_serial (r : iconn) (p : iout) : option N :=
+  match p.2 with IQueryReply sr _ => if bool_decide (p.1 = r) then Some sr else None | _ => None end.
+Definition replies_to (r : iconn) (o : list iout) : gmultiset N := list_to_set_disj (omap (reply_serial r) o).
+
+Ltac ms := apply gmultiset_eq; intros ?; rewrite ?multiplicity_disj_union, ?multiplicity_empty; lia.
+
+Lemma gsum_nil {A} (g : A -> gmultiset N) : gsum g [] = ∅.
+Proof. done. Qed.
+Lemma gsum_cons {A} (g : A -> gmultiset N) x l : gsum g (x :: l) = g x ⊎ gsum g l.
+Proof. done. Qed.
+Lemma gsum_app {A} (g : A -> gmultiset N) l1 l2 : gsum g (l1 ++ l2) = gsum g l1 ⊎ gsum g l2.
+Proof. induction l1 as [|x l1 IH]. - rewrite app_nil_l, gsum_nil. ms. - rewrite <- app_comm_cons, !gsum_cons, IH. ms. Qed.
+Lemma gsum_perm {A} (g : A -> gmultiset N) l1 l2 : l1 ≡ₚ l2 -> gsum g l1 = gsum g l2.
+Proof. induction 1 as [|x l l' _ IH|x y l|l l' l'' _ IH1 _ IH2].
+ - done. - by rewrite !gsum_cons, IH. - rewrite !gsum_cons. ms. - congruence. Qed.
+Lemma gsum_ext {A} (g h : A -> gmultiset N) l : (forall x, x ∈ l -> g x = h x) -> gsum g l = gsum h l.
+Proof.
+  induction l as [|x l IH]; intros H; [done|]. rewrite !gsum_cons, (H x) by left. rewrite IH; [done|]. intros y Hy. apply H. by right.
+Qed.
+Lemma gsum_split {A} (g h : A -> gmultiset N) l : gsum (fun x => g x ⊎ h x) l = gsum g l ⊎ gsum h l.
+Proof. induction l as [|x l IH]; [rewrite !gsum_nil; ms|]. rewrite !gsum_cons, IH. ms. Qed.
+Lemma gsum_omap {A B} (g : B -> gmultiset N) (f : A -> option B) l :
+  gsum g (omap f l) = gsum (fun x => match f x with Some y => g y | None => ∅ end) l.
+Proof. induction l as [|x l IH]; [done|]. rewrite gsum_cons. cbn [omap list_omap]. destruct (f x); rewrite ?gsum_cons, IH; [done|ms]. Qed.
+Lemma gsum_empty {A} (g : A -> gmultiset N) l : (forall x, x ∈ l -> g x = ∅) -> gsum g l = ∅.
+Proof. induction l as [|x l IH]; intros H; [done|]. rewrite gsum_cons, (H x) by left. rewrite IH; [ms|]. intros y Hy. apply H. by right. Qed.
+
+Lemma qms_nil r : qms r [] = ∅.
+Proof. done. Qed.
+Lemma qms_app r l1 l2 : qms r (l1 ++ l2) = qms r l1 ⊎ qms r l2.
+Proof. unfold qms. rewrite filter_app, fmap_app, list_to_set_disj_app. done. Qed.
+Lemma qms_cons r q l : qms r (q :: l) = (if bool_decide (q_conn q = r) then {[+ q_serial q +]} else ∅) ⊎ qms r l.
+Proof.
+  change (q :: l) with ([q] ++ l). rewrite qms_app. f_equal. unfold qms. cbn [List.filter].
+  destruct (bool_decide (q_conn q = r)); [|done]. cbn [fmap list_fmap].
+  rewrite list_to_set_disj_cons, list_to_set_disj_nil. apply (right_id_L ∅ (⊎)).
+Qed.
+Lemma qms_drop r c l : c <> r -> qms r (List.filter (fun p => negb (bool_decide (q_conn p = c))) l) = qms r l.
+Proof.
+  intros Hne. induction l as [|q l IH]; [done|]. cbn [List.filter].
+  destruct (bool_decide_reflect (q_conn q = c)) as [Hc|Hc]; cbn [negb].
+  - rewrite IH, qms_cons. rewrite bool_decide_eq_false_2 by congruence. ms.
+  - rewrite !qms_cons, IH. done.
+Qed.
+
+(* the database sum under updates of the entry map *)
+Section pm.
+  Context (r : iconn).
+  Let g := fun p : itid * ientry => qms r (e_pending p.2).
+  Definition pm (ents : gmap itid ientry) : gmultiset N := gsum g (map_to_list ents).
+
+  Lemma pm_empty : pm ∅ = ∅.
+  Proof. unfold pm. by rewrite map_to_list_empty. Qed.
+  Lemma pm_insert_fresh ents t e : ents !! t = None -> pm (<[t := e]> ents) = qms r (e_pending e) ⊎ pm ents.
+  Proof. intros H. unfold pm. by rewrite (gsum_perm g _ _ (map_to_list_insert ents t e H)). Qed.
+  Lemma pm_delete ents t e : ents !! t = Some e -> pm ents = qms r (e_pending e) ⊎ pm (delete t ents).
+  Proof. intros H. unfold pm. by rewrite <- (gsum_perm g _ _ (map_to_list_delete ents t e H)). Qed.
+  Lemma pm_insert ents t e e' :
+    ents !! t = Some e -> pm (<[t := e']> ents) ⊎ qms r (e_pending e) = pm ents ⊎ qms r (e_pending e').
+  Proof.
+    intros H. rewrite <- (insert_delete_insert ents), pm_insert_fresh by apply lookup_delete.
+    rewrite (pm_delete ents t e H). ms.
+  Qed.
+  Lemma pm_insert_same ents t e e' :
+    ents !! t = Some e -> qms r (e_pending e') = qms r (e_pending e) -> pm (<[t := e']> ents) = pm ents.
+  Proof. intros H Hq. pose proof (pm_insert ents t e e' H) as Hp. rewrite Hq in Hp. multiset_solver. Qed.
+  Lemma pm_omap (f : ientry -> option ientry) ents :
+    pm (omap f ents) = gsum (fun p : itid * ientry => match f p.2 with Some e' => qms r (e_pending e') | None => ∅ end) (map_to_list ents).
+  Proof.
+    induction ents as [|t e ents Hn IH] using map_ind.
+    - by rewrite omap_empty, pm_empty, map_to_list_empty.
+    - rewrite (gsum_perm _ _ _ (map_to_list_insert ents t e Hn)), gsum_cons. cbn [snd]. rewrite <- IH.
+      destruct (f e) as [e'|] eqn:Ef.
+      + rewrite (omap_insert_Some f ents t e e' Ef). apply pm_insert_fresh. by rewrite lookup_omap, Hn.
+      + rewrite (omap_insert_None f ents t e Ef), delete_notin by (by rewrite lookup_omap, Hn). ms.
+  Qed.
+End pm.
+
+Lemma pend_of_pm s r : pend_of s r = pm r (i_entries s).
+Proof. done. Qed.
+
+Lemma replies_to_app r o1 o2 : replies_to r (o1 ++ o2) = replies_to r o1 ⊎ replies_to r o2.
+Proof. unfold replies_to. by rewrite omap_app, list_to_set_disj_app. Qed.
+
+(* ---- the account of connection r inside a step: what is pending for it plus what it was sent *)
+Definition live (r : iconn) (m : IM) : Prop :=
+  exists ci, i_conns (ims m) !! r = Some ci /\ ci_alive ci = true.
+Definition acct (r : iconn) (m : IM) : gmultiset N := pm r (i_entries (ims m)) ⊎ replies_to r (imo m).
+
+Lemma live_back r m m' : mrel m m' -> live r m' -> live r m.
+Proof. intros [Hc _] (ci & Hci & Ha). exists ci. auto. Qed.
+
+Definition reply_ms (x : imsg) : gmultiset N := match x with IQueryReply sr _ => {[+ sr +]} | _ => ∅ end.
+
+Lemma replies_to_snoc r o c x :
+  replies_to r (o ++ [(c, x)]) = replies_to r o ⊎ (if bool_decide (c = r) then reply_ms x else ∅).
+Proof.
+  rewrite replies_to_app. f_equal. unfold replies_to, reply_serial. cbn [omap list_omap snd fst].
+  destruct x as [sr t|sr p|]; cbn [reply_ms]; try (by destruct (bool_decide (c = r))).
+  destruct (bool_decide (c = r)); [|done]. cbn [omap list_omap].
+  rewrite list_to_set_disj_cons, list_to_set_disj_nil. apply (right_id_L ∅ (⊎)).
+Qed.
+
+Lemma send_acct r m c ci x :
+  (c = r -> ci_alive ci = true) ->
+  ims (isend_or_remove m c ci x) = ims m /\
+  replies_to r (imo (isend_or_remove m c ci x)) =
+    replies_to r (imo m) ⊎ (if bool_decide (c = r) then reply_ms x else ∅).
+Proof.
+  intros Ha. unfold isend_or_remove. destruct (ci_alive ci) eqn:Ea.
+  - split; [done|]. change (imo (iemit m c x)) with (imo m ++ [(c, x)]). apply replies_to_snoc.
+  - split; [done|]. change (imo (ipush_remove m c false)) with (imo m).
+    rewrite bool_decide_eq_false_2; [ms|]. intros ->. by specialize (Ha eq_refl).
+Qed.
+
+Lemma answers_acct r site res l : forall m m',
+  ifoldO (ianswer site res) l m = IDone m' -> live r m ->
+  ims m' = ims m /\ replies_to r (imo m') = replies_to r (imo m) ⊎ qms r l.
+Proof.
+  induction l as [|q l IH]; intros m m'; cbn [ifoldO].
+  - intros [= <-] _. split; [done|]. rewrite qms_nil. ms.
+  - destruct (ianswer site res m q) as [m1| | |] eqn:E1; try done. intros H Hl.
+    assert (ims m1 = ims m /\ replies_to r (imo m1) = replies_to r (imo m) ⊎
+              (if bool_decide (q_conn q = r) then {[+ q_serial q +]} else ∅)) as [Hs1 Hr1].
+    { revert E1. unfold ianswer. destruct (i_conns (ims m) !! q_conn q) as [ci|] eqn:Ec.
+      - intros [= <-]. apply (send_acct r m (q_conn q) ci (IQueryReply (q_serial q) res)).
+        intros Heq. destruct Hl as (ci' & Hci' & Ha'). rewrite Heq in Ec. congruence.
+      - destruct site; [done|]. intros [= <-]. split; [done|].
+        rewrite bool_decide_eq_false_2; [ms|]. intros Heq. destruct Hl as (ci' & Hci' & _). rewrite Heq in Ec. congruence. }
+    destruct (IH m1 m' H) as [Hs Hr].
+    { destruct Hl as (ci & Hci & Ha). exists ci. by rewrite Hs1. }
+    split; [congruence|]. rewrite Hr, Hr1, qms_cons. ms.
+Qed.
+
+Lemma ask_acct2 r site m t e m' :
+  iask_provider site m t e = IDone m' -> i_entries (ims m) !! t = Some e ->
+  pm r (i_entries (ims m')) = pm r (i_entries (ims m)) /\ replies_to r (imo m') = replies_to r (imo m).
+Proof.
+  unfold iask_provider. destruct (iq_insert (ims m) t) as [[sr s1]|] eqn:Eins; [|done].
+  apply iq_insert_spec in Eins as (_ & _ & Hc1 & He1 & _).
+  repeat (match goal with |- context [if ?b then _ else _] => destruct b end; [done|]).
+  destruct (imc m) as [|r0 rest]; [done|].
+  destruct (entry_query_random_conn e sr r0) as [[e' c]| | |] eqn:Eq; try done.
+  assert (e_pending e' = e_pending e) as Hp.
+  { revert Eq. unfold entry_query_random_conn.
+    repeat (match goal with |- context [if ?b then _ else _] => destruct b end; [done|]).
+    destruct (e_ids e !! _); [|done]. by intros [= <- _]. }
+  cbn. rewrite Hc1. destruct (i_conns (ims m) !! c) as [ci|] eqn:Ec; [|done]. intros [= <-] He.
+  assert (forall x, ims (isend_or_remove x c ci (IQuery sr t)) = ims x /\
+                    replies_to r (imo (isend_or_remove x c ci (IQuery sr t))) = replies_to r (imo x)) as Hs.
+  { intros x. unfold isend_or_remove. destruct (ci_alive ci); [|done]. split; [done|].
+    change (imo (iemit x c (IQuery sr t))) with (imo x ++ [(c, IQuery sr t)]).
+    rewrite replies_to_snoc. cbn [reply_ms]. destruct (bool_decide (c = r)); ms. }
+  destruct (Hs (m <| ims := s1 <| i_entries := <[t := e']> (i_entries s1) |> |> <| imc := rest |>)) as [-> ->].
+  split; [|done]. cbn. rewrite He1. apply (pm_insert_same r _ t e e' He). by rewrite Hp.
+Qed.
+
+Lemma ask_acct r site m t e m' :
+  iask_provider site m t e = IDone m' -> i_entries (ims m) !! t = Some e -> acct r m' = acct r m.
+Proof. intros H He. destruct (ask_acct2 r _ _ _ _ _ H He) as [Hp Hr]. unfold acct. by rewrite Hp, Hr. Qed.
+
+Lemma ms_cancel (X Y A B : gmultiset N) : X ⊎ A = Y ⊎ (A ⊎ B) -> X = Y ⊎ B.
+Proof.
+  intros H. apply gmultiset_eq. intros x. apply (f_equal (multiplicity x)) in H.
+  rewrite !multiplicity_disj_union in *. lia.
+Qed.
+Lemma ms_cancel0 (X Y A : gmultiset N) : X ⊎ A = Y ⊎ ∅ -> Y = X ⊎ A.
+Proof. intros H. rewrite H. ms. Qed.
+
+(* ---- register: pending lists are untouched *)
+Lemma reg_pm r ents t c :
+  pm r (<[t := entry_register (default ientry0 (ents !! t)) c]> ents) = pm r ents.
+Proof.
+  destruct (ents !! t) as [e|] eqn:E;
+    [change (default ientry0 (Some e)) with e|change (default ientry0 (@None ientry)) with ientry0].
+  - apply (pm_insert_same r ents t e _ E). unfold entry_register. destruct (e_idxs e !! c); reflexivity.
+  - rewrite pm_insert_fresh by done.
+    assert (e_pending (entry_register ientry0 c) = []) as Hp
+      by (unfold entry_register; cbn [e_idxs ientry0]; by rewrite lookup_empty).
+    rewrite Hp, qms_nil. ms.
+Qed.
+Lemma reg_fold_pm r c l : forall ents,
+  pm r (foldl (fun ents t => <[t := entry_register (default ientry0 (ents !! t)) c]> ents) ents l) = pm r ents.
+Proof. induction l as [|t l IH]; intros ents; cbn [foldl]; [done|]. by rewrite IH, reg_pm. Qed.
+
+Lemma db_register_acct r m c ts m' :
+  db_register m c ts = IDone m' \/ db_register m c ts = IFail m' -> acct r m' = acct r m.
+Proof.
+  unfold db_register. destruct (i_conns (ims m) !! c) as [ci|]; [|by intros [[= <-]|[=]]].
+  destruct (ci_ver ci <? _)%N; [by intros [[=]|[= <-]]|].
+  destruct ts as [l|]; [|by intros [[=]|[= <-]]].
+  intros [[= <-]|[=]]. unfold acct. cbn [ims imo set]. f_equal. cbn. apply reg_fold_pm.
+Qed.
+
+(* ---- query: the requester's serial enters the account (answered at once or pending) *)
+Lemma db_query_acct r m c serial t m' :
+  (db_query m c serial t = IDone m' -> live r m' ->
+     acct r m' = acct r m ⊎ (if bool_decide (c = r) then {[+ serial +]} else ∅)) /\
+  (db_query m c serial t = IFail m' -> acct r m' = acct r m).
+Proof.
+  unfold db_query. destruct (i_conns (ims m) !! c) as [ci|] eqn:Ec.
+  2:{ split; [|done]. intros [= <-] (ci & Hci & _). rewrite bool_decide_eq_false_2; [ms|]. intros ->. congruence. }
+  destruct (ci_ver ci <? _)%N; [split; [done|by intros [= <-]]|].
+  assert (forall x, acct r (iemit m c (IQueryReply serial x)) =
+                    acct r m ⊎ (if bool_decide (c = r) then {[+ serial +]} else ∅)) as Hemit.
+  { intros x. unfold acct. change (imo (iemit m c (IQueryReply serial x))) with (imo m ++ [(c, IQueryReply serial x)]).
+    change (ims (iemit m c (IQueryReply serial x))) with (ims m). rewrite replies_to_snoc. cbn [reply_ms]. ms. }
+  destruct (i_entries (ims m) !! t) as [e|] eqn:Ee.
+  2:{ destruct (ci_alive ci); (split; [|intros [= <-]; done]); [|done]. intros [= <-] _. apply Hemit. }
+  destruct (e_intro e) as [p|].
+  { destruct (ci_alive ci); (split; [|intros [= <-]; done]); [|done]. intros [= <-] _. apply Hemit. }
+  set (e1 := e <| e_pending := e_pending e ++ [{| q_conn := c; q_serial := serial |}] |>).
+  set (m1 := m <| ims; i_entries ::= <[t := e1]> |>).
+  assert (acct r m1 = acct r m ⊎ (if bool_decide (c = r) then {[+ serial +]} else ∅)) as H1.
+  { unfold acct, m1. cbn [ims imo set]. cbn.
+    pose proof (pm_insert r (i_entries (ims m)) t e e1 Ee) as Hp.
+    unfold e1 in Hp at 2. cbn [e_pending set] in Hp. rewrite qms_app, qms_cons, qms_nil in Hp. cbn [q_conn q_serial] in Hp.
+    apply ms_cancel in Hp. rewrite Hp. ms. }
+  cbn [e_queried set]. fold e1. fold m1.
+  replace (e_queried e1) with (e_queried e) by done.
+  destruct (e_queried e) as [q|].
+  - split; [|done]. by intros [= <-] _.
+  - split.
+    + intros H _. rewrite <- H1. eapply ask_acct; [exact H|]. unfold m1. cbn. by rewrite lookup_insert.
+    + intros H. by apply ask_never_fails in H.
+Qed.
+
+(* ---- reply: the answered requesters leave the pending lists and get their replies.  The one
+        exception: a provider that answers Unavailable loses its OWN pending queries for that type
+        (IntrospectionEntry::remove_conn filters them out; nobody answers them) *)
+Lemma drop_pending_qms r e c : c <> r -> qms r (drop_pending e c) = qms r (e_pending e).
+Proof. apply qms_drop. Qed.
+
+Lemma db_reply_acct r m c serial res m' :
+  (db_reply m c serial res = IDone m' -> live r m' -> (c = r -> res <> None) -> acct r m' = acct r m) /\
+  (db_reply m c serial res = IFail m' -> acct r m' = acct r m).
+Proof.
+  unfold db_reply. destruct (i_conns (ims m) !! c) as [ci|] eqn:Ec; [|split; [by intros [= <-]|done]].
+  destruct (ci_ver ci <? _)%N; [split; [done|by intros [= <-]]|].
+  destruct (i_qmap (ims m) !! serial) as [t|]; [|split; [done|by intros [= <-]]].
+  destruct (i_entries (ims m) !! t) as [e|] eqn:Ee; [|done].
+  destruct (e_queried e) as [q|]; [|split; [done|by intros [= <-]]].
+  destruct (negb (bool_decide (q_conn q = c))); [split; [done|by intros [= <-]]|].
+  destruct (negb (bool_decide (q_serial q = serial))); [done|].
+  destruct (bool_decide (is_Some (e_intro e))); [done|].
+  set (e1 := e <| e_queried := None |>).
+  destruct res as [p|].
+  - (* Available *)
+    match goal with |- context [if ?b then _ else _] => destruct b end; [done|].
+    set (e2 := e1 <| e_pending := [] |> <| e_intro := Some p |>).
+    set (m2 := m <| ims; i_qmap ::= delete serial |> <| ims; i_entries ::= <[t := e2]> |>).
+    split.
+    + intros H Hl _.
+      assert (live r m2) as Hl2.
+      { eapply live_back; [|exact Hl]. eapply ifoldO_mrel; [|exact H]. intros; by eapply ianswer_mrel. }
+      destruct (answers_acct r _ _ _ _ _ H Hl2) as [Hs Hr]. unfold acct. rewrite Hs, Hr.
+      change (imo m2) with (imo m). change (i_entries (ims m2)) with (<[t := e2]> (i_entries (ims m))).
+      pose proof (pm_insert r (i_entries (ims m)) t e e2 Ee) as Hp.
+      change (e_pending e2) with (@nil iquery) in Hp. rewrite qms_nil in Hp. apply ms_cancel0 in Hp.
+      change (e_pending e1) with (e_pending e). rewrite Hp. ms.
+    + intros H. exfalso. revert H. apply ifoldO_never_fails. intros; apply ianswer_never_fails.
+  - (* Unavailable *)
+    destruct (entry_remove_conn e1 c) as [[e2 b]| | |] eqn:Erc; try done.
+    assert (e_pending e2 = drop_pending e c) as Hp2.
+    { revert Erc. unfold entry_remove_conn, entry_remove_conn_g.
+      set (e1' := match e_queried e1 with Some q0 => if bool_decide (q_conn q0 = c) then e1 <| e_queried := None |> else e1 | None => e1 end).
+      assert (e1' = e1) as -> by done. cbn.
+      destruct (e_idxs e !! c) as [idx|].
+      - destruct (bool_decide (delete c (e_idxs e) = ∅)); [by intros [= <- _]|].
+        destruct (swap_remove (e_ids e) idx) as [ids'|]; [|done].
+        destruct (guard_rust idx (length ids')); [|by intros [= <- _]].
+        destruct (ids' !! idx) as [c'|]; [|done]. destruct (delete c (e_idxs e) !! c'); [|done]. by intros [= <- _].
+      - destruct (bool_decide (e_idxs e = ∅)); [done|]. destruct (bool_decide (e_ids e = [])); [done|]. by intros [= <- _]. }
+    destruct b.
+    + (* Continue *)
+      set (m2 := m <| ims; i_qmap ::= delete serial |> <| ims; i_entries ::= <[t := e2]> |>).
+      split; [|intros H; by apply ask_never_fails in H].
+      intros H Hl Hex. assert (c <> r) as Hcr by (intros ->; by apply Hex).
+      rewrite (ask_acct r _ _ _ _ _ H) by (unfold m2; cbn; by rewrite lookup_insert).
+      unfold acct. change (imo m2) with (imo m). change (i_entries (ims m2)) with (<[t := e2]> (i_entries (ims m))).
+      f_equal. apply (pm_insert_same r _ t e e2 Ee). rewrite Hp2. by apply drop_pending_qms.
+    + (* nobody left to ask: everybody pending gets Unavailable *)
+      set (m2 := m <| ims; i_qmap ::= delete serial |> <| ims; i_entries ::= delete t |>).
+      split.
+      * intros H Hl Hex. assert (c <> r) as Hcr by (intros ->; by apply Hex).
+        assert (live r m2) as Hl2.
+        { eapply live_back; [|exact Hl]. eapply ifoldO_mrel; [|exact H]. intros; by eapply ianswer_mrel. }
+        destruct (answers_acct r _ _ _ _ _ H Hl2) as [Hs Hr]. unfold acct. rewrite Hs, Hr.
+        change (imo m2) with (imo m). change (i_entries (ims m2)) with (delete t (i_entries (ims m))).
+        rewrite (pm_delete r (i_entries (ims m)) t e Ee), Hp2, drop_pending_qms by done. ms.
+      * intros H. exfalso. revert H. apply ifoldO_never_fails. intros; apply ianswer_never_fails.
+Qed.
+
+(* ---- removal of a connection other than r *)
+Definition ucost (r : iconn) (rs : list irc_result) : gmultiset N :=
+  gsum (fun res => match res with RUnavail _ p => qms r p | RCont _ _ => ∅ end) rs.
+
+Lemma phase1_acct s c r ents' rs :
+  idb_inv s -> c <> r -> db_remove_conn (i_entries s) c = IDone (ents', rs) ->
+  pm r (i_entries s) = pm r ents' ⊎ ucost r rs.
+Proof.
+  intros I Hcr. unfold db_remove_conn. rewrite omap_nil_all.
+  2:{ intros [t e] Hin. apply elem_of_map_to_list in Hin. unfold erc_panic. cbn.
+      destruct (entry_remove_conn_spec e c (inv_wf _ _ _ I _ _ Hin)) as (e' & b & -> & _). done. }
+  intros [= <- <-]. rewrite pm_omap. unfold ucost. rewrite gsum_omap, <- gsum_split. unfold pm.
+  apply gsum_ext. intros [t e] Hin. apply elem_of_map_to_list in Hin. cbn [snd].
+  pose proof (inv_wf _ _ _ I _ _ Hin) as W.
+  destruct (entry_remove_conn_spec e c W) as (e' & b & Hrc & _ & Hq' & Hp' & Hb & _).
+  unfold erc_keep, erc_result. cbn [snd fst]. rewrite Hrc.
+  assert (qms r (e_pending e') = qms r (e_pending e)) as Hqe by (rewrite Hp'; by apply drop_pending_qms).
+  destruct b.
+  - (* retained: nothing is answered here *)
+    rewrite Hqe. destruct (entry_queried e); [destruct (entry_queried e')|]; ms.
+  - (* removed *)
+    destruct (decide (e_pending e' = [])) as [Hnil|Hnn].
+    { rewrite <- Hqe, Hnil, qms_nil. destruct (entry_queried e); [destruct (entry_queried e')|]; rewrite ?Hnil, ?qms_nil; ms. }
+    assert (e_pending e <> []) as Hpe.
+    { intros Hn. apply Hnn. rewrite Hp'. unfold drop_pending. by rewrite Hn. }
+    destruct (inv_live _ _ _ I _ _ Hin ltac:(set_solver) Hpe) as [q Hq].
+    assert (q_conn q = c) as Hqc by (apply Hb; [done|]; by apply (wf_queried _ W q)).
+    unfold entry_queried. rewrite Hq, Hq'. unfold drop_queried. rewrite Hq, bool_decide_eq_true_2 by done. cbn [fmap option_fmap option_map].
+    rewrite Hqe. ms.
+Qed.
+
+Lemma iremove_result_acct r m res m' :
+  iremove_result m res = IDone m' -> live r m' ->
+  pm r (i_entries (ims m')) = pm r (i_entries (ims m)) /\
+  replies_to r (imo m') = replies_to r (imo m) ⊎ ucost r [res].
+Proof.
+  unfold iremove_result. destruct (i_qmap (ims m) !! irc_serial res); [|done].
+  set (m1 := m <| ims; i_qmap ::= delete (irc_serial res) |>).
+  unfold ucost. rewrite gsum_cons, gsum_nil.
+  destruct res as [sr t|sr pend].
+  - destruct (i_entries (ims m1) !! t) as [e|] eqn:Ee.
+    + intros H _. destruct (ask_acct2 r _ _ _ _ _ H Ee) as [Hp Hr]. rewrite Hp, Hr.
+      change (imo m1) with (imo m). split; [done|]. ms.
+    + intros [= <-] _. split; [done|]. change (imo m1) with (imo m). ms.
+  - intros H Hl.
+    assert (live r m1) as Hl1.
+    { eapply live_back; [|exact Hl]. eapply ifoldO_mrel; [|exact H]. intros; by eapply ianswer_mrel. }
+    destruct (answers_acct r _ _ _ _ _ H Hl1) as [Hs Hr]. rewrite Hs, Hr. split; [done|].
+    change (imo m1) with (imo m). ms.
+Qed.
+
+Lemma iremove_fold_acct r rs : forall m m',
+  ifoldO iremove_result rs m = IDone m' -> live r m' ->
+  pm r (i_entries (ims m')) = pm r (i_entries (ims m)) /\
+  replies_to r (imo m') = replies_to r (imo m) ⊎ ucost r rs.
+Proof.
+  induction rs as [|res rs IH]; intros m m'; cbn [ifoldO].
+  - intros [= <-] _. split; [done|]. unfold ucost. rewrite gsum_nil. ms.
+  - destruct (iremove_result m res) as [m1| | |] eqn:E1; try done. intros H Hl.
+    assert (live r m1) as Hl1.
+    { eapply live_back; [|exact Hl]. eapply ifoldO_mrel; [|exact H]. apply iremove_result_mrel. }
+    destruct (iremove_result_acct r _ _ _ E1 Hl1) as [Hp1 Hr1].
+    destruct (IH _ _ H Hl) as [Hp Hr]. split; [congruence|].
+    rewrite Hr, Hr1. unfold ucost. rewrite !gsum_cons, gsum_nil. ms.
+Qed.
+
+Lemma ishutdown_conn_acct r m c sd m' :
+  idb_inv (ims m) -> ishutdown_conn m c sd = IDone m' -> live r m' -> acct r m' = acct r m.
+Proof.
+  intros I H Hl.
+  destruct (i_conns (ims m) !! c) as [ci|] eqn:Ec.
+  2:{ revert H. unfold ishutdown_conn. rewrite Ec. by intros [= <-]. }
+  assert (c <> r) as Hcr.
+  { intros ->. pose proof (ishutdown_conn_ok m r sd I) as Hok. rewrite H in Hok. destruct Hok as (_ & Hc' & _).
+    destruct Hl as (ci' & Hci' & _). rewrite Hc', lookup_delete in Hci'. done. }
+  revert H. unfold ishutdown_conn. rewrite Ec.
+  set (m0 := m <| ims; i_conns ::= delete c |>).
+  set (m1 := if sd && ci_alive ci then iemit m0 c IShutdown else m0).
+  assert (i_entries (ims m1) = i_entries (ims m) /\ replies_to r (imo m1) = replies_to r (imo m)) as [He1 Hr1].
+  { unfold m1. destruct (sd && ci_alive ci); [|done]. split; [done|].
+    change (imo (iemit m0 c IShutdown)) with (imo m ++ [(c, IShutdown)]). rewrite replies_to_snoc. cbn [reply_ms].
+    destruct (bool_decide (c = r)); ms. }
+  unfold iremove_introspection_conn. rewrite He1.
+  destruct (db_remove_conn (i_entries (ims m)) c) as [[ents' rs]| | |] eqn:Erc; try done.
+  intros H. pose proof (phase1_acct _ _ r _ _ I Hcr Erc) as Hp1.
+  destruct (iremove_fold_acct r rs _ _ H Hl) as [Hp Hr].
+  unfold acct. rewrite Hp, Hr. cbn [ims imo i_entries set]. cbn. rewrite Hr1, Hp1. ms.
+Qed.
+
+Lemma isettle_acct r fuel : forall m m',
+  idb_inv (ims m) -> isettle fuel m = IDone m' -> live r m' -> acct r m' = acct r m.
+Proof.
+  induction fuel as [|fuel IH]; intros m m' I.
+  - rewrite isettle_0. destruct (imq m); [|done]. by intros [= <-].
+  - rewrite isettle_S. destruct (imq m) as [|[c sd] rest] eqn:Eq; [by intros [= <-]|].
+    match goal with |- context [ishutdown_conn ?a c sd] =>
+      pose proof (ishutdown_conn_ok a c sd I) as Hok; pose proof (ishutdown_conn_acct r a c sd) as Hacct;
+      pose proof (ishutdown_conn_never_fails a c sd) as Hnf;
+      destruct (ishutdown_conn a c sd) as [m1|m1| |] eqn:E1 end; try done.
+    destruct Hok as (I1 & _). intros H Hl.
+    rewrite (IH _ _ I1 H Hl). rewrite (Hacct m1 I eq_refl); [done|].
+    eapply live_back; [|exact Hl]. by eapply isettle_mrel.
+Qed.
+
+(* the serial a step adds to r's account: r sent a QueryIntrospection *)
+Definition asked (e : ievent) (r : iconn) : gmultiset N :=
+  match e with IQueryMsg c serial _ => if bool_decide (c = r) then {[+ serial +]} else ∅ | _ => ∅ end.
+
+Lemma replies_to_nil r : replies_to r [] = ∅.
+Proof. done. Qed.
+
+Lemma introdb_query_answered s e ch s' o r ci :
+  ireachable s -> ilegal s e -> istep s e ch = IDone (s', o) ->
+  i_conns s' !! r = Some ci -> ci_alive ci = true ->
+  (forall sr, e <> IReplyMsg r sr None) ->
+  pend_of s' r ⊎ replies_to r o = pend_of s r ⊎ asked e r.
+Proof.
+  intros Hr Hl Hs Hci Ha Hex. pose proof (idb_inv_reachable _ Hr) as I.
+  rewrite istep_eq in Hs. pose proof (ihandled_ok s e ch I Hl) as Hok.
+  destruct (ihandled s e ch) as [m| | |] eqn:Eh; try done. cbn in Hok.
+  destruct (isettle (ifuel_for m) m) as [m'|m'| |] eqn:Es; try done; [|by apply isettle_never_fails in Es].
+  injection Hs as <- <-.
+  assert (live r m') as Hlive by (exists ci; done).
+  assert (live r m) as Hlm by (eapply live_back; [by eapply isettle_mrel|done]).
+  pose proof (isettle_acct r _ _ _ Hok Es Hlive) as Hacct. unfold acct in Hacct at 1. rewrite <- pend_of_pm in Hacct.
+  rewrite Hacct. clear Hacct.
+  set (m0 := {| ims := s; imq := []; imo := []; imc := ch |}) in *.
+  assert (acct r m0 = pend_of s r ⊎ ∅) as H0 by (unfold acct; cbn [ims imo m0]; by rewrite replies_to_nil).
+  assert (forall c m1, acct r (ipush_remove m1 c false) = acct r m1) as Hpush by done.
+  revert Eh. unfold ihandled. fold m0.
+  destruct e as [c ver|c|c|c|c ts|c serial t|c serial res|]; cbn [asked].
+  - destruct (i_conns s !! c); [done|]. intros [= <-]. rewrite <- H0. done.
+  - intros [= <-]. rewrite <- H0. done.
+  - intros [= <-]. rewrite <- H0. done.
+  - intros [= <-]. rewrite <- H0. by destruct (i_conns s !! c).
+  - destruct (db_register m0 c ts) as [m1|m1| |] eqn:E1; try done; intros [= <-]; rewrite ?Hpush, <- H0;
+      apply (db_register_acct r m0 c ts m1); auto.
+  - destruct (db_query m0 c serial t) as [m1|m1| |] eqn:E1; try done; intros [= <-].
+    + destruct (db_query_acct r m0 c serial t m1) as [Hd _]. rewrite (Hd E1 Hlm). rewrite H0. ms.
+    + (* the request was refused: the sender is removed, so it is not r *)
+      destruct (db_query_acct r m0 c serial t m1) as [_ Hf]. rewrite Hpush, (Hf E1), H0.
+      rewrite bool_decide_eq_false_2; [done|]. intros ->.
+      assert (i_conns (ims m') !! r = None) as Hn.
+      { eapply (isettle_head _ (ipush_remove m1 r false) r false (imq m1)); [exact Hok|done|exact Es]. }
+      congruence.
+  - destruct (db_reply m0 c serial res) as [m1|m1| |] eqn:E1; try done; intros [= <-].
+    + destruct (db_reply_acct r m0 c serial res m1) as [Hd _].
+      rewrite (Hd E1 Hlm); [by rewrite H0|]. intros -> ->. by destruct (Hex serial).
+    + destruct (db_reply_acct r m0 c serial res m1) as [_ Hf]. by rewrite Hpush, (Hf E1), H0.
+  - intros [= <-]. rewrite <- H0. done.
+Qed.
+
+(* the exception is real: a provider that is asked, answers Unavailable and has itself a query for
+   that type pending never gets a reply for it *)
+Local Open Scope N_scope.
+Definition self_unavail_history : list (ievent * list N) :=
+  [(INew 1 17, []); (IRegister 1 (Some [5]), []); (IQueryMsg 1 0 5, [0]); (IReplyMsg 1 0 None, [])].
+Definition irun (h : list (ievent * list N)) : option (istate * list (list iout)) :=
+  foldl (fun acc p => match acc with
+                      | Some (s, os) => match istep s p.1 p.2 with IDone (s', o) => Some (s', os ++ [o]) | _ => None end
+                      | None => None end) (Some (iinit, [])) h.
+Lemma self_unavail_drops_query :
+  exists s os, irun self_unavail_history = Some (s, os) /\
+    os = [[]; []; [(1, IQuery 0 5)]; []] /\ size (i_entries s) = 0%nat /\ is_Some (i_conns s !! 1).
+Proof. vm_compute. eexists _, _. split; [reflexivity|]. split; [reflexivity|]. split; [reflexivity|]. eauto. Qed.
+
+(* ================================================================ the work loop's fuel suffices *)
+Local Open Scope nat_scope.
+Definition nsum {A} (g : A -> nat) (l : list A) : nat := foldr (fun p acc => g p + acc) 0 l.
+Lemma nsum_cons {A} (g : A -> nat) x l : nsum g (x :: l) = g x + nsum g l.
+Proof. done. Qed.
+Lemma nsum_perm {A} (g : A -> nat) l1 l2 : l1 ≡ₚ l2 -> nsum g l1 = nsum g l2.
+Proof.
+  induction 1 as [|x l l' _ IH|x y l|l l' l'' _ IH1 _ IH2]; [done| | |congruence].
+  - by rewrite !nsum_cons, IH.
+  - rewrite !nsum_cons. lia.
+Qed.
+Lemma nsum_le {A} (g h : A -> nat) l : (forall x, x ∈ l -> g x <= h x) -> nsum g l <= nsum h l.
+Proof.
+  induction l as [|x l IH]; intros H; [done|]. rewrite !nsum_cons. pose proof (H x ltac:(left)).
+  assert (nsum g l <= nsum h l) by (apply IH; intros y Hy; apply H; by right). lia.
+Qed.
+Lemma nsum_omap {A B} (g : B -> nat) (f : A -> option B) l :
+  nsum g (omap f l) = nsum (fun x => match f x with Some y => g y | None => 0 end) l.
+Proof. induction l as [|x l IH]; [done|]. rewrite nsum_cons. cbn [omap list_omap]. destruct (f x); rewrite ?nsum_cons; lia. Qed.
+
+Definition eload (p : itid * ientry) : nat := S (length (e_pending p.2)).
+Definition lload (ents : gmap itid ientry) : nat := nsum eload (map_to_list ents).
+Lemma iload_lload s : iload s = lload (i_entries s).
+Proof.
+  unfold iload, lload, map_fold. cbn. induction (map_to_list (i_entries s)) as [|[t e] l IH]; [done|].
+  cbn. rewrite IH. done.
+Qed.
+Lemma lload_insert_fresh ents t e : ents !! t = None -> lload (<[t := e]> ents) = S (length (e_pending e)) + lload ents.
+Proof. intros H. unfold lload. by rewrite (nsum_perm eload _ _ (map_to_list_insert ents t e H)). Qed.
+Lemma lload_delete ents t e : ents !! t = Some e -> lload ents = S (length (e_pending e)) + lload (delete t ents).
+Proof. intros H. unfold lload. by rewrite <- (nsum_perm eload _ _ (map_to_list_delete ents t e H)). Qed.
+Lemma lload_insert ents t e e' :
+  ents !! t = Some e -> lload (<[t := e']> ents) + length (e_pending e) = lload ents + length (e_pending e').
+Proof.
+  intros H. rewrite <- (insert_delete_insert ents), lload_insert_fresh by apply lookup_delete.
+  rewrite (lload_delete ents t e H). lia.
+Qed.
+Lemma lload_omap (f : ientry -> option ientry) ents :
+  lload (omap f ents) = nsum (fun p : itid * ientry => match f p.2 with Some e' => S (length (e_pending e')) | None => 0 end) (map_to_list ents).
+Proof.
+  induction ents as [|t e ents Hn IH] using map_ind.
+  - by rewrite omap_empty, map_to_list_empty.
+  - rewrite (nsum_perm _ _ _ (map_to_list_insert ents t e Hn)), nsum_cons. cbn [snd]. rewrite <- IH.
+    destruct (f e) as [e'|] eqn:Ef.
+    + rewrite (omap_insert_Some f ents t e e' Ef). apply lload_insert_fresh. by rewrite lookup_omap, Hn.
+    + rewrite (omap_insert_None f ents t e Ef), delete_notin by (by rewrite lookup_omap, Hn). done.
+Qed.
+
+Definition rcost (res : irc_result) : nat := match res with RCont _ _ => 1 | RUnavail _ p => length p end.
+
+Lemma drop_pending_length e c : length (drop_pending e c) <= length (e_pending e).
+Proof. unfold drop_pending. induction (e_pending e) as [|q l IH]; cbn; [lia|]. destruct (negb _); cbn; lia. Qed.
+
+Lemma phase1_load s c ents' rs :
+  idb_inv s -> db_remove_conn (i_entries s) c = IDone (ents', rs) ->
+  lload ents' <= lload (i_entries s) /\ nsum rcost rs <= lload (i_entries s).
+Proof.
+  intros I. unfold db_remove_conn. rewrite omap_nil_all.
+  2:{ intros [t e] Hin. apply elem_of_map_to_list in Hin. unfold erc_panic. cbn.
+      destruct (entry_remove_conn_spec e c (inv_wf _ _ _ I _ _ Hin)) as (e' & b & -> & _). done. }
+  intros [= <- <-]. rewrite lload_omap, nsum_omap. unfold lload.
+  split; apply nsum_le; intros [t e] Hin; apply elem_of_map_to_list in Hin; cbn [snd];
+    pose proof (inv_wf _ _ _ I _ _ Hin) as W;
+    destruct (entry_remove_conn_spec e c W) as (e' & b & Hrc & _ & _ & Hp' & _);
+    pose proof (drop_pending_length e c) as Hlen; rewrite <- Hp' in Hlen; unfold eload; cbn [snd].
+  - unfold erc_keep. rewrite Hrc. destruct b; lia.
+  - unfold erc_result. cbn [snd fst]. rewrite Hrc.
+    destruct (entry_queried e); [destruct (entry_queried e')|]; try lia. destruct b; cbn [rcost]; lia.
+Qed.
+
+(* pushes and load of the pieces *)
+Lemma ask_load site m t e m' :
+  iask_provider site m t e = IDone m' -> i_entries (ims m) !! t = Some e ->
+  length (imq m') <= S (length (imq m)) /\ lload (i_entries (ims m')) = lload (i_entries (ims m)).
+Proof.
+  unfold iask_provider. destruct (iq_insert (ims m) t) as [[sr s1]|] eqn:Eins; [|done].
+  apply iq_insert_spec in Eins as (_ & _ & Hc1 & He1 & _).
+  repeat (match goal with |- context [if ?b then _ else _] => destruct b end; [done|]).
+  destruct (imc m) as [|r0 rest]; [done|].
+  destruct (entry_query_random_conn e sr r0) as [[e' c]| | |] eqn:Eq; try done.
+  assert (e_pending e' = e_pending e) as Hp.
+  { revert Eq. unfold entry_query_random_conn.
+    repeat (match goal with |- context [if ?b then _ else _] => destruct b end; [done|]).
+    destruct (e_ids e !! _); [|done]. by intros [= <- _]. }
+  cbn. rewrite Hc1. destruct (i_conns (ims m) !! c) as [ci|] eqn:Ec; [|done]. intros [= <-] He.
+  unfold isend_or_remove. destruct (ci_alive ci); cbn; rewrite He1;
+    (split; [lia|]); pose proof (lload_insert _ t e e' He) as Hl; rewrite Hp in Hl; lia.
+Qed.
+
+Lemma answers_load site res l : forall m m',
+  ifoldO (ianswer site res) l m = IDone m' -> length (imq m') <= length (imq m) + length l /\ ims m' = ims m.
+Proof.
+  induction l as [|q l IH]; intros m m'; cbn [ifoldO].
+  - intros [= <-]. cbn. split; [lia|done].
+  - destruct (ianswer site res m q) as [m1| | |] eqn:E1; try done. intros H.
+    assert (length (imq m1) <= S (length (imq m)) /\ ims m1 = ims m) as [Hq1 Hs1].
+    { revert E1. unfold ianswer. destruct (i_conns (ims m) !! q_conn q) as [ci|].
+      - intros [= <-]. unfold isend_or_remove. destruct (ci_alive ci); cbn; split; (lia || done).
+      - destruct site; [done|]. intros [= <-]. split; [lia|done]. }
+    destruct (IH _ _ H) as [Hq Hs]. cbn [length]. split; [lia|congruence].
+Qed.
+
+Lemma iremove_result_load m res m' :
+  iremove_result m res = IDone m' ->
+  length (imq m') <= length (imq m) + rcost res /\ lload (i_entries (ims m')) = lload (i_entries (ims m)).
+Proof.
+  unfold iremove_result. destruct (i_qmap (ims m) !! irc_serial res); [|done].
+  set (m1 := m <| ims; i_qmap ::= delete (irc_serial res) |>).
+  destruct res as [sr t|sr pend]; cbn [rcost].
+  - destruct (i_entries (ims m1) !! t) as [e|] eqn:Ee.
+    + intros H. destruct (ask_load _ _ _ _ _ H Ee) as [Hq Hl]. change (imq m1) with (imq m) in Hq.
+      change (i_entries (ims m1)) with (i_entries (ims m)) in Hl. split; [lia|done].
+    + intros [= <-]. split; [cbn; lia|done].
+  - intros H. destruct (answers_load _ _ _ _ _ H) as [Hq Hs]. rewrite Hs. change (imq m1) with (imq m) in Hq. done.
+Qed.
+
+Lemma iremove_fold_load rs : forall m m',
+  ifoldO iremove_result rs m = IDone m' ->
+  length (imq m') <= length (imq m) + nsum rcost rs /\ lload (i_entries (ims m')) = lload (i_entries (ims m)).
+Proof.
+  induction rs as [|res rs IH]; intros m m'; cbn [ifoldO].
+  - intros [= <-]. cbn. split; [lia|done].
+  - destruct (iremove_result m res) as [m1| | |] eqn:E1; try done. intros H.
+    destruct (iremove_result_load _ _ _ E1) as [Hq1 Hl1]. destruct (IH _ _ H) as [Hq Hl].
+    rewrite nsum_cons. split; [lia|congruence].
+Qed.
+
+Definition pot (m : IM) : nat :=
+  length (imq m) + size (i_conns (ims m)) * (2 + lload (i_entries (ims m))).
+
+Lemma ishutdown_conn_pot m c sd m' :
+  idb_inv (ims m) -> ishutdown_conn m c sd = IDone m' -> pot m' <= pot m.
+Proof.
+  intros I. unfold ishutdown_conn. destruct (i_conns (ims m) !! c) as [ci|] eqn:Ec; [|intros [= <-]; lia].
+  set (m0 := m <| ims; i_conns ::= delete c |>).
+  set (m1 := if sd && ci_alive ci then iemit m0 c IShutdown else m0).
+  assert (i_entries (ims m1) = i_entries (ims m) /\ imq m1 = imq m /\ i_conns (ims m1) = delete c (i_conns (ims m))) as (He1 & Hq1 & Hc1).
+  { unfold m1. by destruct (sd && ci_alive ci). }
+  unfold iremove_introspection_conn. rewrite He1.
+  destruct (db_remove_conn (i_entries (ims m)) c) as [[ents' rs]| | |] eqn:Erc; try done.
+  destruct (phase1_load _ _ _ _ I Erc) as [Hl1 Hc].
+  intros H. destruct (iremove_fold_load _ _ _ H) as [Hq Hl]. pose proof (ifoldO_mrel _ _ _ _ iremove_result_mrel H) as [Hcs _].
+  assert (i_conns (ims m') = delete c (i_conns (ims m))) as Hcm'.
+  { pose proof (ishutdown_conn_ok m c sd I) as Hok. unfold ishutdown_conn in Hok. rewrite Ec in Hok.
+    fold m0 in Hok. fold m1 in Hok. unfold iremove_introspection_conn in Hok. rewrite He1, Erc, H in Hok. by destruct Hok as (_ & ? & _). }
+  unfold pot. rewrite Hcm', Hl. cbn [ims i_entries imq set] in *. cbn in Hq, Hl |- *. rewrite Hq1 in Hq.
+  rewrite map_size_delete_Some by eauto.
+  assert (0 < size (i_conns (ims m))) as Hpos.
+  { destruct (decide (size (i_conns (ims m)) = 0)) as [Hz|]; [|lia]. apply map_size_empty_inv in Hz. rewrite Hz, lookup_empty in Ec. done. }
+  set (n := size (i_conns (ims m))) in *. set (L := lload (i_entries (ims m))) in *.
+  destruct n as [|n]; [lia|]. cbn [pred]. nia.
+Qed.
+
+(* only the loop itself reports NoFuel *)
+Lemma ask_not_nofuel site m t e : iask_provider site m t e <> IHalt NoFuel.
+Proof.
+  unfold iask_provider. destruct (iq_insert _ _) as [[sr s1]|]; [|done].
+  repeat (match goal with |- context [if ?b then _ else _] => destruct b end; [done|]).
+  destruct (imc m) as [|r rest]; [done|].
+  assert (entry_query_random_conn e sr r <> IHalt NoFuel) as Hq.
+  { unfold entry_query_random_conn.
+    repeat (match goal with |- context [if ?b then _ else _] => destruct b end; [done|]). by destruct (e_ids e !! _). }
+  destruct (entry_query_random_conn e sr r) as [[e' c0]| | |[]]; try done.
+  match goal with |- context [i_conns ?a !! c0] => destruct (i_conns a !! c0) end; done.
+Qed.
+Lemma ifoldO_not_nofuel {A} (f : IM -> A -> ioutcome IM) l : forall m,
+  (forall m x, f m x <> IHalt NoFuel) -> ifoldO f l m <> IHalt NoFuel.
+Proof.
+  induction l as [|x l IH]; intros m Hf; cbn; [done|].
+  destruct (f m x) as [m1|m1| |h] eqn:E; try done; [by apply IH|]. intros [= ->]. by destruct (Hf m x).
+Qed.
+Lemma ianswer_not_nofuel site r m q : ianswer site r m q <> IHalt NoFuel.
+Proof. unfold ianswer. destruct (i_conns _ !! _); [done|]. by destruct site. Qed.
+Lemma iremove_result_not_nofuel m r : iremove_result m r <> IHalt NoFuel.
+Proof.
+  unfold iremove_result. destruct (i_qmap (ims m) !! irc_serial r); [|done].
+  destruct r as [sr t|sr pend].
+  - destruct (i_entries _ !! t) as [e|]; [apply ask_not_nofuel|done].
+  - apply ifoldO_not_nofuel. intros; apply ianswer_not_nofuel.
+Qed.
+Lemma ishutdown_conn_not_nofuel m c sd : ishutdown_conn m c sd <> IHalt NoFuel.
+Proof.
+  unfold ishutdown_conn. destruct (i_conns (ims m) !! c) as [ci|]; [|done].
+  unfold iremove_introspection_conn. unfold db_remove_conn.
+  destruct (omap (erc_panic c) _); [|done]. apply ifoldO_not_nofuel. intros; apply iremove_result_not_nofuel.
+Qed.
+
+Lemma isettle_fuel fuel : forall m, idb_inv (ims m) -> pot m < fuel -> isettle fuel m <> IHalt NoFuel.
+Proof.
+  induction fuel as [|fuel IH]; intros m I Hp; [lia|].
+  rewrite isettle_S. destruct (imq m) as [|[c sd] rest] eqn:Eq; [done|].
+  match goal with |- context [ishutdown_conn ?a c sd] =>
+    pose proof (ishutdown_conn_ok a c sd I) as Hok; pose proof (ishutdown_conn_pot a c sd) as Hpot;
+    pose proof (ishutdown_conn_not_nofuel a c sd) as Hnn; pose proof (ishutdown_conn_never_fails a c sd) as Hnf;
+    assert (pot a < pot m) as Ha by (unfold pot; rewrite Eq; cbn; lia);
+    destruct (ishutdown_conn a c sd) as [m1|m1| |h] eqn:E1 end; try done.
+  destruct Hok as (I1 & _). apply IH; [done|]. specialize (Hpot m1 I eq_refl). lia.
+Qed.
+
+Lemma introdb_fuel s e ch : ireachable s -> ilegal s e -> istep s e ch <> IHalt NoFuel.
+Proof.
+  intros Hr Hl. pose proof (idb_inv_reachable _ Hr) as I.
+  rewrite istep_eq. pose proof (ihandled_ok s e ch I Hl) as Hok.
+  destruct (ihandled s e ch) as [m|m| |h] eqn:Eh; try done.
+  - cbn in Hok. pose proof (isettle_fuel (ifuel_for m) m Hok) as Hf.
+    assert (pot m < ifuel_for m) as Hlt by (unfold ifuel_for, pot; rewrite iload_lload; lia).
+    specialize (Hf Hlt). destruct (isettle (ifuel_for m) m) as [m'|m'| |h]; try done. intros [= ->]. done.
+  - (* the event-specific part never halts for lack of fuel *)
+    intros [= ->]. revert Eh. unfold ihandled. destruct e as [c ver|c|c|c|c ts|c serial t|c serial r|]; try done.
+    + by destruct (i_conns s !! c).
+    + unfold db_register. destruct (i_conns _ !! c) as [ci|]; [|done]. destruct (ci_ver ci <? _)%N; [done|]. by destruct ts.
+    + unfold db_query. destruct (i_conns _ !! c) as [ci|]; [|done]. destruct (ci_ver ci <? _)%N; [done|].
+      destruct (i_entries _ !! t) as [e|]; [|by destruct (ci_alive ci)].
+      destruct (e_intro e); [by destruct (ci_alive ci)|]. cbn. destruct (e_queried e); [done|].
+      match goal with |- context [iask_provider ?a ?b ?c ?d] => pose proof (ask_not_nofuel a b c d) as Hn;
+        destruct (iask_provider a b c d) as [| | |[]] end; done.
+    + unfold db_reply. destruct (i_conns _ !! c) as [ci|]; [|done]. destruct (ci_ver ci <? _)%N; [done|].
+      destruct (i_qmap _ !! serial) as [t|]; [|done]. destruct (i_entries _ !! t) as [e|]; [|done].
+      destruct (e_queried e) as [q|]; [|done].
+      repeat (match goal with |- context [if ?b then _ else _] => destruct b end; [done|]).
+      destruct r as [p|].
+      * match goal with |- context [if ?b then _ else _] => destruct b end; [done|].
+        match goal with |- context [ifoldO ?f ?l ?a] => pose proof (ifoldO_not_nofuel f l a (fun m x => ianswer_not_nofuel _ _ m x)) as Hn;
+          destruct (ifoldO f l a) as [| | |[]] end; done.
+      * assert (forall e0, entry_remove_conn e0 c <> IHalt NoFuel) as Hrc.
+        { intros e0. unfold entry_remove_conn, entry_remove_conn_g. cbn.
+          repeat (match goal with |- context [match ?x with _ => _ end] => destruct x end; try done). }
+        match goal with |- context [entry_remove_conn ?e0 c] => pose proof (Hrc e0) as Hn;
+          destruct (entry_remove_conn e0 c) as [[e2 [|]]| | |[]] end; try done.
+        -- match goal with |- context [iask_provider ?a ?b ?c ?d] => pose proof (ask_not_nofuel a b c d) as Hn2;
+             destruct (iask_provider a b c d) as [| | |[]] end; done.
+        -- match goal with |- context [ifoldO ?f ?l ?a] => pose proof (ifoldO_not_nofuel f l a (fun m x => ianswer_not_nofuel _ _ m x)) as Hn2;
+             destruct (ifoldO f l a) as [| | |[]] end; done.
+Qed.
+
+(* a step of a reachable state completes; it stops early only when the driver gave it fewer drawn
+   indices than it needs, or when all 2^32 query serials are occupied (SerialMap::insert loops) *)
+Lemma introdb_completes s e ch :
+  ireachable s -> ilegal s e ->
+  (exists s' o, istep s e ch = IDone (s', o)) \/ (exists n, istep s e ch = IHalt (NeedChoice n)) \/
+  istep s e ch = IHalt NoSerial.
+Proof.
+  intros Hr Hl. pose proof (istep_ok s e ch (idb_inv_reachable _ Hr) Hl) as Hok.
+  pose proof (introdb_fuel s e ch Hr Hl) as Hf.
+  destruct (istep s e ch) as [[s' o]| | |[n| |]]; try done; eauto.
+Qed.
+
+(* idle shutdown: the exit test of Broker::run *)
+Lemma introdb_idle s : iexits s = true <-> i_idle s = true /\ i_conns s = ∅.
+Proof. unfold iexits. rewrite andb_true_iff, bool_decide_eq_true. done. Qed.
+
+Lemma introdb_idle_set s ch s' o :
+  istep s IShutdownIdle ch = IDone (s', o) -> i_idle s' = true /\ i_conns s' = i_conns s /\ o = [].
+Proof.
+  rewrite istep_eq. cbn [ihandled].
+  set (m := {| ims := s; imq := []; imo := []; imc := ch |} <| ims; i_idle := true |>).
+  destruct (ifuel_for m); [rewrite isettle_0|rewrite isettle_S]; cbn [imq m set]; cbn; by intros [= <- <-].
+Qed.
+
+(* once idle shutdown was requested, the broker exits as soon as the last connection is removed;
+   the flag survives every step *)
+Lemma introdb_idle_kept s e ch s' o :
+  ireachable s -> ilegal s e -> istep s e ch = IDone (s', o) -> i_idle s = true -> i_idle s' = true.
+Proof.
+  intros Hr Hl Hs Hi. pose proof (idb_inv_reachable _ Hr) as I.
+  rewrite istep_eq in Hs. pose proof (ihandled_ok s e ch I Hl) as Hok.
+  destruct (ihandled s e ch) as [m| | |] eqn:Eh; try done. cbn in Hok.
+  pose proof (isettle_ok (ifuel_for m) m Hok) as H2.
+  destruct (isettle (ifuel_for m) m) as [m'| | |]; try done. injection Hs as <- _.
+  destruct H2 as (_ & _ & -> & _).
+  revert Eh. unfold ihandled. set (m0 := {| ims := s; imq := []; imo := []; imc := ch |}).
+  destruct e as [c ver|c|c|c|c ts|c serial t|c serial r|].
+  - destruct (i_conns s !! c); [done|]. by intros [= <-].
+  - by intros [= <-].
+  - by intros [= <-].
+  - intros [= <-]. by destruct (i_conns s !! c).
+  - pose proof (db_register_ok m0 c ts I) as H. destruct (db_register m0 c ts) as [m1|m1| |]; try done;
+      intros [= <-]; destruct H as (_ & _ & Hid & _); exact (eq_trans Hid Hi).
+  - pose proof (db_query_ok m0 c serial t I) as H. destruct (db_query m0 c serial t) as [m1|m1| |]; try done;
+      intros [= <-]; destruct H as (_ & _ & Hid); exact (eq_trans Hid Hi).
+  - pose proof (db_reply_ok m0 c serial r I) as H. destruct (db_reply m0 c serial r) as [m1|m1| |]; try done;
+      intros [= <-]; destruct H as (_ & _ & Hid); exact (eq_trans Hid Hi).
+  - by intros [= <-].
 Qed.
